@@ -12,1066 +12,2515 @@ Definition show_fres (r : fres) : string :=
   end.
 Definition check (rs : list rune) : string := digest (show_fres (format_res rs)).
 Definition full (rs : list rune) : string := show_fres (format_res rs).
-Eval vm_compute in ("<<<M1816>>>" ++ check (runes_of_ascii "options {
-    lengthOf = ""CRC32"";
-    stringy = uint16;
-    u8x = float32;
-    x_y_z = zchar[007]
-    repeatCount = ""a\""b"";
-    // c
-    //	t
-}
-
-MetaData trueish {
-    As roots `" ++ [28040; 24687; 31867; 22411]%N ++ runes_of_ascii "`,
-    char[00] Packet,
-}
-
-root packet roots {
-    int8 Logon,
-    body @lengthOf(lengthOf) `
-    `,
-    @rightPad('0')
-    Packet @calculatedFrom(""x y"") `a\`,
-    @lengthOf(T)
-    match matchKey as _x {
-        """ ++ [128512]%N ++ runes_of_ascii """ : stringy,
-        4294967296 : x_y_z,
-        ""\n"" : leftPad,
-        [42, 42, ""it's"", ""\n"", ""// no comment""] : asx,
-    },
-    char[10] BodyLength,
-    @leftPad('0')
-    char[] Z9_ `crlf
-    line`,
-    string falsey,
-    int16 asx @calculatedFrom(""x y""),
-    u128 Z9_ `it's`,
-    @rightPad('0')
-    Packet {
-        // " ++ [128512]%N ++ runes_of_ascii " emoji
-        int64 float,
-        repeat leftPad {
-            repeat Z9_ {
-                match T as lengthOf {
-                    ""`tick`"" : msg_type,
-                    ""1"" : x_y_z,
-                    0 : chars,
-                },
-            },
-            repeat trueish {
-                zchar[255] crc `doc`,
-                char Logon @lengthOf(_x),
-                //
-                a1 `doc`,
-                //x
-                //	t
-            },
-            match msg_type as zchar {
-                ""it's"" : body,
-                """ ++ [28040; 24687]%N ++ runes_of_ascii """ : u,
-            },
-        },
-    },
-}
-
-packet As {
-    @leftPad('\x00')
-    @tag(255)
-    @lengthOf(o)
-    zchar[42] string_ @calculatedFrom(""a\""b"") `" ++ [28040; 24687; 31867; 22411]%N ++ runes_of_ascii "`,
-    char[] repeatCount @lengthOf(calculatedFrom),
-    metadata @calculatedFrom(""abc"") `two words`,
-    // `tick` ""quote"" 'q'
-    // c
-    @lengthOf(matchKey)
-    match packetx as falsey {
-        007 : A,
-        ""1"" : packetx,
-        //
-        7 : charz,
-        [65535] : stringy,
-        65535 : a1,
-        [""a	b"", 1] : Logon,
-        // a // b
-        // " ++ [128512]%N ++ runes_of_ascii " emoji
-    },
-}")).
-Eval vm_compute in ("<<<M1940>>>" ++ check (runes_of_ascii "packet BodyLength {
-    leftPad lengthOf,
-    float rootA `it's`,
-    @leftPad('0')
-    repeat BodyLength,
-    @rightPad()
-    i16 falsey @lengthOf(i64_),// `tick` ""quote"" 'q'
-    repeat char[0123456789] uint8x,
-    repeat f64 i64_,
-    a1 tag `" ++ [233]%N ++ runes_of_ascii "`,
-    char[10] packetx `say ""hi""`,
-    repeat tag metadata `tab	here`,
-}
-
+Eval vm_compute in ("<<<M90>>>" ++ check (runes_of_ascii "root packet
+f32a { i8i8 @lengthOf( BodyLength) `line1
+line2` , /// triple
+string_ _x , zchar
+,  char rootA
+,@rightPad()
+// @lengthOf(
+// 50% %s
+@lengthOf(
+charz//
+)
+    u128 `it's`, i16 uint8x// packet A { u8 x, }
+@lengthOf(tag )	, char[]
+string_, // a // b
+@calculatedFrom(
+""a\""b""  ) //x
+@calculatedFrom( ""\" ++ [233]%N ++ runes_of_ascii """) @calculatedFrom( // " ++ [128512]%N ++ runes_of_ascii " emoji
+""packet"")
+repeat A
+    { match uint8x
+as metadata
+{  [ 65535
+    ,""\" ++ [233]%N ++ runes_of_ascii """,	3]
+: MetaDataX , } , x
+    {
+    repeat crc Pad `crlf
+line` ,
+u32 string_ `tab	here`	,} , //
+falsey	@lengthOf( x
+// " ++ [27880; 37322]%N ++ runes_of_ascii "
 /// triple
-options {
-    crc = """";
-}
-
-packet int {
-    repeat zchar[255] i64_ `two words`,
-    string tag @lengthOf(Header),
-    char chars,
-    @lengthOf(crc)
-    match asx as Foo {
-        7 : BodyLength,
-        ""packet"" : Z9_,
-        007 : matchKey,
-    },
-    uint16 metadata,
-    i64_ {
-        repeat u8 msg_type,
-        stringy {
-            char[0123456789] o @calculatedFrom(""\n"") `" ++ [233]%N ++ runes_of_ascii "`,
-        },
-        zchar[00] stringy `line1
-        line2`,
-    },
-    @leftPad('0')
-    match uint8x as u128 {
-        [1, ""abc""] : _x,
-        ""a	b"" : Packet,
-        // c
-        3 : _x,
-        ""`tick`"" : packetx,
-        ""\n"" : Header,
-    },
-    x @calculatedFrom(""\n""),
-    zchar[65535] Packet,
-}
-
-MetaData Logon {
-}
-
-packet packetx {
-    @calculatedFrom(""a\\"")
-    match roots as Foo {
-        [""\n"", 4294967296] : asx,
-        00 : o,
-        ""{,}"" : Header,
-        255 : packetx,
-        [255, 4294967296] : MetaDataX,
-    },
-}")).
-Eval vm_compute in ("<<<M1535>>>" ++ check (runes_of_ascii "  options  {
-
-    StringPrefixLenType
-= u16 
-; ArrayPrefixLenType =
-    u8  ;
-
-    FixedStringPadFromLeft =
-
-true	;
-FixedStringPadChar= 
-' '
-
-;
-}
-    packet Quote  { int64  OrderId
-, char[]Ref
-,
-
-    @leftPad
-( '0'  )
-char[ 5
-	]
-
-    price ,	}packet	Heartbeat 
-{zchar[	3 ]venue
-, string
-Flags,
-
-    }packet Trade  {	repeat
-
-    InTag787 {i32
-
-venue
-	,char[
-5
-] sym
-
-    ,	repeat 
-InPx98 
+) , match // a // b
+a1 as
+calculatedFrom { [ 1 // 50% %s
+, 4294967296 ,
+""""
+    , 7 ] : matchKey[ """" , ""`tick`"" ]: x ,
+    // c
+    ""abc""
+    //x
+    :_x } // packet A { u8 x, }
+, }
+    ,match stringy // trailing space 
+as repeatCount //
 {
-
-char[11	]
-
-    Qty
+255 : falsey , ""it's""  :roots,[ """ ++ [128512]%N ++ runes_of_ascii """, 3 ,""// no comment""  ] :o [ 0123456789 ] :
+    //	t
+    uint8x
+    ,
+10 : int
 ,
-Heartbeat ,char[]
-price,
-u32 x ,float64 count
+0123456789 :	Header
+    // `tick` ""quote"" 'q'
+    ,
+    }
+, repeat
+    //x
+    MetaDataX , } MetaData tag
+{u64 u ,// " ++ [128512]%N ++ runes_of_ascii " emoji
+}
+root packet
+string_ { char[// packet A { u8 x, }
+65535]// a // b
+asx  @calculatedFrom(  ""{,}"")// c
+,uint8x @calculatedFrom( // `tick` ""quote"" 'q'
+""" ++ [233]%N ++ runes_of_ascii "t" ++ [233]%N ++ runes_of_ascii """ ) , string
+repeatCount @calculatedFrom(	""abc""
+) `crlf
+line`,  @calculatedFrom(
+    // @lengthOf(
+    ""a\\"")	repeat // " ++ [27880; 37322]%N ++ runes_of_ascii "
+char[ 1] matchKey //	t
+`two words`,	} packet Z9_
+{
+// @lengthOf(
+// c
+@tag( 42 )
+    //
+    @calculatedFrom(
+""1"" ) match u8x
+as chars {[ ""CRC32"" ]
+: packetx,""" ++ [233]%N ++ runes_of_ascii "t" ++ [233]%N ++ runes_of_ascii """
+:tag
+, 0123456789: calculatedFrom// a // b
+, 7 : lengthOf , [ ""a	b"" , 65535 , 3	,
+""`tick`""
+    /// triple
+    ,  255 //x
+] :
+    u8x , 4294967296
+    :
+    Header , } , @lengthOf(
+// " ++ [27880; 37322]%N ++ runes_of_ascii "
+// @lengthOf(
+i64_ )	a1 `a\` , //x
+f32a
+    MetaDataX // " ++ [27880; 37322]%N ++ runes_of_ascii "
+, @lengthOf(
+    options1 )
+Pad @lengthOf( Pad ) // " ++ [128512]%N ++ runes_of_ascii " emoji
+`100% of %d` //	t
+, // 50% %s
+f32a
+    `{ , }`
+    ,
+    match MetaDataX//
+as asx  {""\" ++ [233]%N ++ runes_of_ascii """ : metadata
+    ,} , @tag(
+    255
+)
+char
+calculatedFrom
+    `crlf
+line`, @lengthOf( leftPad )
+repeatCount @lengthOf( int)
+,}
+packet
+T
+{ }
+")).
+Eval vm_compute in ("<<<M3530>>>" ++ check (runes_of_ascii "packet u {
+    @rightPad()
+    x `{ , }`,
+    uint64 _x,
+    options1 `doc`,
+    match falsey as charz {
+        [7] : int,
+        [""\n""] : matchKey,
+        [""// no comment"", 4294967296] : crc,
+        7 : lengthOf,
+        00 : Foo,
+    },
+    char[00] int @lengthOf(Pad),
+}
 
+packet msg_type {
+    int64 rootA,
+    x {
+        len @calculatedFrom(""1""),
+        chars {
+            u8 asx `say ""hi""`,
+            zchar[7] x_y_z `tab	here`,
+            char[] f32a `doc`,
+        },
+    },
+    u64 f32a,
+    @calculatedFrom(""a\""b"")
+    @lengthOf(_x)
+    @rightPad()
+    a1 metadata `{ , }`,
+    i32 Header `line1
+    line2`,
+    match Logon as int {
+        [""\n"", """ ++ [233]%N ++ runes_of_ascii "t" ++ [233]%N ++ runes_of_ascii """, ""it's""] : chars,
+        42 : u8x,
+        [65535, ""a\\"", 255] : packetx,
+    },
+    match body as len {
+        4294967296 : Header,
+        // trailing space 
+        [""packet""] : MetaDataX,
+        [""\" ++ [233]%N ++ runes_of_ascii """, 007] : Header,
+    },
+    u8 packetx @calculatedFrom(""it's"") `two words`,// 50% %s
+    repeat chars {
+        uint8 metadata @lengthOf(len),
+        //
+    },
+}
+
+root packet i64_ {
+}
+
+root packet calculatedFrom {
+    repeat int8 BodyLength `doc`,
+    // @lengthOf(
+    // c
+    @lengthOf(charz)
+    char[1] x_y_z @calculatedFrom(""1""),
+    @lengthOf(trueish)
+    repeat zchar[10] rootA,
+    zchar[4294967296] matchKey @calculatedFrom(""1"") `tab	here`,
+    trueish {
+        repeat zchar[0123456789] Z9_,
+    },
+    @lengthOf(x)
+    repeat options1 `{ , }`,
+    roots Packet,
+    int16 tag,
+    repeat BodyLength {
+        u8x,
+        float32 uint8x @calculatedFrom(""// no comment""),
+        float64 Packet @lengthOf(roots),
+        repeat zchar[255] Foo,
+    },
+}
+
+options {
+    T = ""x y""
+    // a // b
+    //	t
+    Logon = char[255];
+}")).
+Eval vm_compute in ("<<<M1339>>>" ++ check (runes_of_ascii "
+packet BodyLength  {
+match
+// " ++ [128512]%N ++ runes_of_ascii " emoji
+// trailing space 
+i64_ as asx
+{ [10,
+    ""\" ++ [233]%N ++ runes_of_ascii """  , 0 , 1, ""CRC32"" ,0, 007,""" ++ [233]%N ++ runes_of_ascii "t" ++ [233]%N ++ runes_of_ascii """
+    ] :
+// c
+// packet A { u8 x, }
+options1 , 007 :trueish, 00:  metadata ,
+    [ ""it's""]
+:
+    msg_type
+// `tick` ""quote"" 'q'
+/// triple
+,},
+    @tag( 65535 )  repeat string repeatCount //
+, @lengthOf( tag
+) @leftPad ( '\x00'	)
+@lengthOf( A	)  i16 asx@lengthOf(
+    // c
+    string_ )
+`
+` ,
+    @calculatedFrom(""// no comment""
+) match packetx
+as
+x_y_z
+{  [ 007
+, 255 , ""x y""	, // trailing space 
+42 ]
+    : i64_ // " ++ [128512]%N ++ runes_of_ascii " emoji
+, """ ++ [233]%N ++ runes_of_ascii "t" ++ [233]%N ++ runes_of_ascii """
+    :
+f32a [
+""packet"" // trailing space 
+, ""a\\"" , 7,""it's"" ]: rootA ""a\""b"" : MetaDataX ,	255 : i64_  ""CRC32""
+:repeatCount ,} ,@tag( 0123456789
+)@rightPad ( ' ') @leftPad( '\x00'// `tick` ""quote"" 'q'
+)
+roots `100% of %d` ,repeat
+x {
+repeat char[]  pack ,
+    char[  00
+] Packet // @lengthOf(
+@calculatedFrom( ""\" ++ [233]%N ++ runes_of_ascii """ )
+    `two words`,// c
+MetaDataX , }, match
+    u as zchar { 65535 : A , [00
+, 4294967296
+// `tick` ""quote"" 'q'
+//x
+,""// no comment"" , 65535,""a\""b""  , 255
+, 0 , 7 ]
+    : a1 , [ ""{,}"" ]
+: Header ,}
+, @rightPad ( ' ' ) match i64_ as Z9_ { [ """ ++ [128512]%N ++ runes_of_ascii """ ,
+    ""// no comment"" , ""packet""
+, 255 , 65535	] :  stringy , [
+""""
+    , // @lengthOf(
+007
+    , // c
+""it's""// " ++ [27880; 37322]%N ++ runes_of_ascii "
+] : Z9_  [ """ ++ [128512]%N ++ runes_of_ascii """ ] : calculatedFrom
+, 1 :T ,} , @tag( 0123456789
+    )@calculatedFrom(
+""{,}"" )
+@leftPad// trailing space 
+( )
+repeat i8i8 i8i8
+    ,string
+    Z9_ ,
+    }")).
+Eval vm_compute in ("<<<M521>>>" ++ check (runes_of_ascii "
+packet u128
+{ @leftPad
+( ' ' )	zchar[ 7
+    ] string_
+,Pad @calculatedFrom(""" ++ [128512]%N ++ runes_of_ascii """	)
+    // c
+    `tab	here` // 50% %s
+, crc metadata, @lengthOf( string_ )leftPad , string msg_type`it's`
+, @leftPad
+( ' '	) trueish
+{repeat x Header	`" ++ [28040; 24687; 31867; 22411]%N ++ runes_of_ascii "`// c
+, }
+    ,@calculatedFrom( """ ++ [233]%N ++ runes_of_ascii "t" ++ [233]%N ++ runes_of_ascii """)stringy
+a1, }
+    root packet roots //	t
+{ @tag( 65535) @tag( 007  )@rightPad ( /// triple
+'\x00' )
+char[ 007 // " ++ [27880; 37322]%N ++ runes_of_ascii "
+]
+    //
+    u @lengthOf(
+    MetaDataX )`// not a comment`, @calculatedFrom( ""a\""b"")  i32	msg_type , float  ,
+    // a // b
+    }
+packet
+    int {
+int8 u ,
+uint16 string_,
+    @lengthOf( i64_ )
+    As ,
+repeat float32
+    metadata , zchar[ 0 ] f32a @lengthOf( body )
+`it's` ,
+@lengthOf(rootA) @lengthOf(
+    Packet // @lengthOf(
+)@calculatedFrom( // a // b
+""a\""b"" ) match Logon as// `tick` ""quote"" 'q'
+a1{ 10 : stringy ,
+// `tick` ""quote"" 'q'
+//	t
+42 :	leftPad ,
+} ,@tag( 42 )	int64 msg_type@calculatedFrom(
+// " ++ [128512]%N ++ runes_of_ascii " emoji
+/// triple
+""a\\"" ) ``
+    ,@calculatedFrom(""it's"" // trailing space 
+)@lengthOf(Packet ) @calculatedFrom( ""x y"" )	repeat//	t
+char[10
+] chars `two words`, @rightPad(' ' ) T @calculatedFrom( ""it's""
+    // a // b
+    ) `two words`
+,
+u	,
+    }options {
+    len
+=""\n""	;
+// trailing space 
+// a // b
+uint8x =
+// " ++ [128512]%N ++ runes_of_ascii " emoji
+// c
+true f32a // a // b
+= ""\n"" ; options1 =
+char[1 ] }
+")).
+Eval vm_compute in ("<<<M988>>>" ++ check (runes_of_ascii "root
+packet
+    // @lengthOf(
+    x { @calculatedFrom( """ ++ [233]%N ++ runes_of_ascii "t" ++ [233]%N ++ runes_of_ascii """)
+// `tick` ""quote"" 'q'
+// 50% %s
+Header tag
+    // packet A { u8 x, }
+    `
+`
+,	pack
+BodyLength  `" ++ [233]%N ++ runes_of_ascii "` ,/// triple
+@tag(7) Packet ,} packet
+BodyLength { BodyLength	,} packet float{ match
+packetx // " ++ [27880; 37322]%N ++ runes_of_ascii "
+as u{ [
+10, """ ++ [128512]%N ++ runes_of_ascii """
+, 255 , ""// no comment""
+, 42 //x
+,
+    // a // b
+    00 // `tick` ""quote"" 'q'
+,
+/// triple
+// a // b
+""{,}"" ,
+""" ++ [28040; 24687]%N ++ runes_of_ascii """ ]
+    : Packet // " ++ [128512]%N ++ runes_of_ascii " emoji
+,
+    }, @rightPad
+('0'
+    )
+    repeat  uint16 chars //
+,
+    @calculatedFrom(	""" ++ [233]%N ++ runes_of_ascii "t" ++ [233]%N ++ runes_of_ascii """
+)
+string
+leftPad
+,match len as stringy
+    { 3 //	t
+: pack , }
+    ,repeat
+    // " ++ [27880; 37322]%N ++ runes_of_ascii "
+    u8
+Foo
+,	roots @lengthOf( len
+    ) `it's` ,
+// a // b
+// trailing space 
+@lengthOf(u128 ) char[255 ]	string_, zchar[0123456789 ] stringy
+    , @tag(	10 //x
+)match metadata
+as A{ 0123456789: lengthOf ,
+10:
+    o
+,
+// packet A { u8 x, }
+// 50% %s
+[ ""a	b"" // a // b
+,00
+,3 , 007 ,
+""a\""b"" , 10
+] : chars
+, 42 :
+    u""" ++ [28040; 24687]%N ++ runes_of_ascii """ :
+f32a
+, 7 :
+    u8x  , } // a // b
+,
+    }
+root packet
+    //x
+    u { repeat o{ repeat crc { int8 i8i8
+    // a // b
+    @calculatedFrom(""x y"" )  `tab	here` , repeat falsey { uint32 crc
+@lengthOf(
+    MetaDataX
+)  `100% of %d` , }
+,
+    }
+    , }
+, }
+")).
+Eval vm_compute in ("<<<M234>>>" ++ check (runes_of_ascii "options{roots
+=
+u8
+    // 50% %s
+    ; tag//
+= 42 ;
+    //	t
+    falsey = ""{,}""metadata
+// `tick` ""quote"" 'q'
+/// triple
+= ""abc"" ;
+    } packet pack
+    // trailing space 
+    {
+    @calculatedFrom(//	t
+""a	b"")zchar[255] len, // 50% %s
+} options { // trailing space 
+asx =	false ; options1 = ""packet""
+    ; trueish = char[] ;
+pack = '0'
+; }packet u128 // " ++ [27880; 37322]%N ++ runes_of_ascii "
+{ @tag(
+3 )
+zchar[
+    // `tick` ""quote"" 'q'
+    42 ]
+    Foo //	t
+@calculatedFrom( """"
+) ,  @leftPad// a // b
+(
+'\x00' // " ++ [128512]%N ++ runes_of_ascii " emoji
+)// trailing space 
+Logon { repeat char[]// " ++ [27880; 37322]%N ++ runes_of_ascii "
+x
+`100% of %d`
+    , } ,
+    } packet matchKey{
+match
+    crc as Packet {
+""1""
+    // `tick` ""quote"" 'q'
+    : packetx , }	,match	int as float	{ ""1""
+:metadata
+}, repeat float32 uint8x , string u `" ++ [233]%N ++ runes_of_ascii "` , @rightPad ( '0' )	Logon
+// `tick` ""quote"" 'q'
+/// triple
+,  float{
+    crc
+{
+u
+, uint64 Packet @calculatedFrom(
+""`tick`"" ) `
+`
+    , char[]	T `
+` ,},
+}  , @calculatedFrom( ""// no comment"") char[ 0123456789 ] x
+    `crlf
+line`
+, @leftPad(' ' ) @tag(
+1  ) @calculatedFrom( ""abc""
+)char[  65535 ]Header
+,
+    repeat	zchar[00 ]trueish // 50% %s
+`" ++ [28040; 24687; 31867; 22411]%N ++ runes_of_ascii "`, }")).
+Eval vm_compute in ("<<<M1374>>>" ++ check (runes_of_ascii "packet x_y_z { @lengthOf( crc
+    ) match repeatCount as
+u8x	{
+    // 50% %s
+    """" :
+    string_// " ++ [128512]%N ++ runes_of_ascii " emoji
+, 4294967296
+    /// triple
+    :// a // b
+msg_type
+    ,// 50% %s
+} , @tag(
+    007) float { char[
+    // c
+    3
+    ]MetaDataX @lengthOf(
+u
+) , } // c
+,@leftPad
+    ( ' ' ) repeat
+    char[]trueish
+    `two words`
+, }
+    //x
+    root packet // " ++ [128512]%N ++ runes_of_ascii " emoji
+asx {zchar[ 10 // " ++ [27880; 37322]%N ++ runes_of_ascii "
+]f32a @calculatedFrom( ""x y"" ),	@calculatedFrom( ""abc"" ) zchar[ 10 ] u8x ,
+    repeat  _x
+{// " ++ [128512]%N ++ runes_of_ascii " emoji
+int8 charz `two words` ,i16 u128 ,
+} ,/// triple
+packetx  @lengthOf( Logon
+)
+// `tick` ""quote"" 'q'
+// `tick` ""quote"" 'q'
+`" ++ [28040; 24687; 31867; 22411]%N ++ runes_of_ascii "`
+, char[00 ]
+pack , @rightPad
+( ) match
+repeatCount as	packetx {
+""1"" : int , }, match stringy as
+    leftPad
+{ [ 00 , ""a	b"" ] // " ++ [128512]%N ++ runes_of_ascii " emoji
+:
+    As, }
+    ,
+f64 crc @lengthOf(
+    float) , @leftPad('\x00' )
+    // a // b
+    @rightPad (
+    ' ' )	repeat roots packetx
+    , @tag(
+65535
+//	t
+// " ++ [128512]%N ++ runes_of_ascii " emoji
+)  uint64 matchKey,}
+    // a // b
+    root packet Logon
+    { } MetaData Packet {
+    string asx `u8 x,`
+    , }
+")).
+Eval vm_compute in ("<<<M1228>>>" ++ check (runes_of_ascii "options { options1
+= // " ++ [27880; 37322]%N ++ runes_of_ascii "
+true // @lengthOf(
+}
+// 50% %s
+// c
+packet Header{
+    // c
+    @calculatedFrom(
+// packet A { u8 x, }
+//
+""" ++ [233]%N ++ runes_of_ascii "t" ++ [233]%N ++ runes_of_ascii """ ) u16
+Foo ,}
+    root packet pack {@tag( 255
+) a1 { // packet A { u8 x, }
+char[] x_y_z, } ,
+@lengthOf( falsey) uint64 tag , char[]
+    // `tick` ""quote"" 'q'
+    Header@calculatedFrom(""// no comment""	) ,
+@leftPad ( '0'  ) @rightPad ('\x00' ) tag @calculatedFrom(
+// " ++ [128512]%N ++ runes_of_ascii " emoji
+// " ++ [27880; 37322]%N ++ runes_of_ascii "
+""" ++ [28040; 24687]%N ++ runes_of_ascii """
+// @lengthOf(
+// c
+) , uint16 x @calculatedFrom( ""`tick`"" ) `tab	here`
+    ,
+    repeat  i64 string_ `u8 x,`
+, _x @calculatedFrom( ""packet"" ) `// not a comment` , repeat // @lengthOf(
+x {// `tick` ""quote"" 'q'
+i32 o `
+`
+    // " ++ [27880; 37322]%N ++ runes_of_ascii "
+    ,}
+    ,
+    match uint8x// `tick` ""quote"" 'q'
+as falsey {""\" ++ [233]%N ++ runes_of_ascii """ :
+falsey , 4294967296 : roots """ ++ [28040; 24687]%N ++ runes_of_ascii """ :
+float
+,// " ++ [27880; 37322]%N ++ runes_of_ascii "
+[  1 , /// triple
+1 , """" ,
+// trailing space 
+// @lengthOf(
+""CRC32""
+    ,00 , ""a	b"" ,""a	b"" ] :calculatedFrom
+    }
+, @calculatedFrom(""{,}"") //x
+zchar[ 00
+    ] Pad , } packet
+    /// triple
+    calculatedFrom { }
+")).
+Eval vm_compute in ("<<<M319>>>" ++ check (runes_of_ascii "  root packet matchKey {zchar[1//x
+]
+i64_//x
+@lengthOf(Pad ) ,  char[ 0123456789
+    ] BodyLength`crlf
+line`,@calculatedFrom(""" ++ [128512]%N ++ runes_of_ascii """)//x
+o @calculatedFrom( ""1""
+    ) `two words` ,
+    char pack// " ++ [128512]%N ++ runes_of_ascii " emoji
+@calculatedFrom(""it's"" ) ,} packet string_ { } root packet Z9_// " ++ [27880; 37322]%N ++ runes_of_ascii "
+{ char[ 10] a1 , @tag(00) match
+    metadata as tag  { ""it's"" : A ""{,}"" :body, }, @calculatedFrom(  ""a\""b""
+    ) @rightPad( '0' ) i16 msg_type
+@lengthOf( zchar) ``
+,
+float64// @lengthOf(
+matchKey @lengthOf(  roots )`two words` ,
+    @calculatedFrom( ""CRC32"" //x
+)
+    // " ++ [128512]%N ++ runes_of_ascii " emoji
+    @tag( // packet A { u8 x, }
+0
+)@rightPad ( ' ' ) Foo @lengthOf( int
+    //x
+    ) `" ++ [28040; 24687; 31867; 22411]%N ++ runes_of_ascii "` ,
+    @lengthOf(  o )	@tag( 42 )@tag( 1 //	t
+) char[] Logon ,
+@calculatedFrom(
+// `tick` ""quote"" 'q'
+// 50% %s
+""a	b"" ) repeat
+    u8  options1 , zchar[ 0 ] i64_ , } MetaData o// packet A { u8 x, }
+{ body Header , i64 matchKey , pack body ,
+}	MetaData crc
+    // trailing space 
+    { }")).
+Eval vm_compute in ("<<<M69>>>" ++ check (runes_of_ascii "packet
+    zchar{zchar[ // 50% %s
+4294967296
+] len `crlf
+line`, @tag(
+7 ) @tag( 4294967296 ) i8 msg_type @calculatedFrom(""1"" ) `crlf
+line`  ,
+    zchar[ 0] // " ++ [27880; 37322]%N ++ runes_of_ascii "
+body @calculatedFrom(
+""// no comment""
+)  , repeat f64 _x // trailing space 
+,char[3
+] x @calculatedFrom(""`tick`"" )
+    `say ""hi""` , @tag(
+65535  ) char MetaDataX// @lengthOf(
+@lengthOf( BodyLength ) ,// packet A { u8 x, }
+@lengthOf(Z9_ )match Pad as Z9_ { ""x y"":
+    chars , ""a	b"":
+u128 , """ ++ [128512]%N ++ runes_of_ascii """ : Header }
+    , zchar[	007]
+    float
+    `u8 x,`, }options
+{
+    stringy = zchar[7 ] ;}packet Header
+{	matchKey  tag	, @calculatedFrom(	""// no comment"") @calculatedFrom( """"	)	@rightPad  (' ') u128// trailing space 
+{repeat leftPad
+{ int64
+    rootA	@lengthOf(
+crc ) `" ++ [233]%N ++ runes_of_ascii "` , }  ,
+    } ,zchar[
+42
+    ] matchKey	,
+    // " ++ [27880; 37322]%N ++ runes_of_ascii "
+    @lengthOf(rootA ) float32
+chars @lengthOf( pack // `tick` ""quote"" 'q'
+)
+// " ++ [27880; 37322]%N ++ runes_of_ascii "
+// c
+``
+,}
+")).
+Eval vm_compute in ("<<<M1162>>>" ++ check (runes_of_ascii "  packet packetx{
+    float64
+string_ , o
+{ Pad options1
+`" ++ [233]%N ++ runes_of_ascii "`
+,
+    roots {float32 Z9_`a\` ,
+uint32 Logon
+,
+match
+asx as
+rootA { ""`tick`""  : As
+// trailing space 
+// c
+, 00 : int ,/// triple
+} , repeat char[]
+// 50% %s
+// a // b
+Logon , }	,f32// `tick` ""quote"" 'q'
+u128`crlf
+line`
+    , } ,} packet float{	falsey, crc
+    @calculatedFrom(""abc"" ) ,
+@calculatedFrom(
+""1"" ) repeat //	t
+T , @rightPad(
+'\x00') repeat Header `tab	here` , repeat //x
+char[] uint8x , pack @calculatedFrom( """ ++ [233]%N ++ runes_of_ascii "t" ++ [233]%N ++ runes_of_ascii """ ) ,
+@lengthOf( i8i8 )
+    u16 a1 ``
+,  int64 roots
+// 50% %s
+// 50% %s
+@calculatedFrom(	""x y"" ) , rootA  , BodyLength
+    // a // b
+    @lengthOf(
+zchar
+    /// triple
+    )
+, // 50% %s
+}MetaData calculatedFrom{  stringy crc //	t
+,
+    }
+    MetaData Foo { Packet
+    A , int8 Packet, As calculatedFrom ,calculatedFrom
+    calculatedFrom `` , }
+")).
+Eval vm_compute in ("<<<M3940>>>" ++ check (runes_of_ascii "// @lengthOf(
+root
+packet 
+T{//
+	@rightPad
+(
+' '
+    )
+
+@leftPad('0'
+	)
+    leftPad	// packet A { u8 x, }
+
+	, @leftPad  (
+
+    ) 
+int
+
+    falsey,
+	@calculatedFrom(
+""// no comment""
+) char[0123456789
+	] calculatedFrom @calculatedFrom( ""packet""
+	)	`" ++ [233]%N ++ runes_of_ascii "`
+,
+
+}	root	packet float {
+
+    char[
+4294967296 ]
+uint8x
+,string	u,
+	@lengthOf(Pad
+    )
+i32
+    lengthOf
+    // " ++ [27880; 37322]%N ++ runes_of_ascii "
+
+  ,
+    @calculatedFrom(// c
+""abc""
+
+)
+
+x_y_z
+
+    {
+
+zchar[ 0
+
+    ] body
+@calculatedFrom(""1"")	, float64
+
+    packetx 
+@calculatedFrom(	""""
+	)  `crlf
+line`,
+match
+body as
+	tag
+    {00
+	:
+    //
+    chars
+	,
+},
+repeat
+tag 
+{	int8	MetaDataX 
+`u8 x,`
+,
+    }	// a // b
+	,} ,
+@tag( 7 
+)
+
+string
+
+    int
+
+    @calculatedFrom(
+
+""it's""
+    ) , 	 // c
+@lengthOf( 
+Z9_
+    )
+
+zchar[ 42] packetx
+`it's`
+	,
+} ")).
+Eval vm_compute in ("<<<M4206>>>" ++ check (runes_of_ascii "root
+    // packet A { u8 x, }
+
+  packet A
+    {
+    f64	chars
+
+@lengthOf(
+    Z9_
+) ,@lengthOf(repeatCount	// `tick` ""quote"" 'q'
+)	//
+	match
+falsey
+	as  crc{
+	7
+    :_x  , },}packet 
+body{ @lengthOf(
+    BodyLength	)charz // @lengthOf(
+
+	@calculatedFrom( ""// no comment"" 	 // " ++ [27880; 37322]%N ++ runes_of_ascii "
+	)  `line1
+line2` 
+,	@calculatedFrom(""// no comment""
+
+    )@leftPad(' '
+
+)
+	@lengthOf(  // `tick` ""quote"" 'q'
+  body
+
+    )  options1@lengthOf( 	 // @lengthOf(
+    string_) `
+` 
+    // 50% %s
+    // " ++ [128512]%N ++ runes_of_ascii " emoji
+  ,
+	match
+
+_x as 
+    // " ++ [128512]%N ++ runes_of_ascii " emoji
+// packet A { u8 x, }
+    lengthOf
+
+{// `tick` ""quote"" 'q'
+""`tick`""
+
+    :u8x,	""abc""
+
+    :
+    o
+
+    , 
+
+    // c
+    1
+
+    :metadata , [ 3]
+:  
+      // c
+
+	// @lengthOf(
+
+	uint8x , 
+65535
+	:charz /// triple
+    	, }
+,}
+
+")).
+Eval vm_compute in ("<<<M842>>>" ++ check (runes_of_ascii "options { stringy = ""a\""b"" ;	Foo
+=true
+; crc// 50% %s
+=
+true
+    } MetaData float{i16 options1 `100% of %d` // trailing space 
+,  As
+// packet A { u8 x, }
+// @lengthOf(
+Header`
+`, } root	packet crc {  char[
+    00 ]	i8i8
+    `u8 x,`,match body as f32a { 0 // packet A { u8 x, }
+: packetx
+, ""a\\"" :
+    a1 ,42 : crc , ""{,}""	: options1
+    , [
+""" ++ [28040; 24687]%N ++ runes_of_ascii """, 3//x
+, ""a\""b""
+] :options1
+    ,[00
+, 3,// a // b
+""" ++ [28040; 24687]%N ++ runes_of_ascii """ ] // packet A { u8 x, }
+: f32a ,	}, @lengthOf( crc ) @rightPad( ' ')
+@calculatedFrom(
+""packet""
+) body	`" ++ [233]%N ++ runes_of_ascii "`
+, // " ++ [128512]%N ++ runes_of_ascii " emoji
+@calculatedFrom(// packet A { u8 x, }
+""1"" )@lengthOf(	msg_type ) @tag(
+//	t
+//
+7 ) repeat zchar[3]  rootA
+, As @calculatedFrom(
+""{,}"" ) , char[] o	@lengthOf(//x
+float
+    //
+    ) `say ""hi""`//	t
+,
+    }options { }
+")).
+Eval vm_compute in ("<<<M1037>>>" ++ check (runes_of_ascii "packet BodyLength{@calculatedFrom( ""a\""b"")@leftPad
+( '\x00' )// " ++ [128512]%N ++ runes_of_ascii " emoji
+@lengthOf(
+// " ++ [27880; 37322]%N ++ runes_of_ascii "
+// @lengthOf(
+charz ) string_
+lengthOf
+, @tag(// trailing space 
+4294967296) @tag( 3	)
+@lengthOf(
+body
+) int64 T ``, @tag( 42 ) charz
+    {
+asx@calculatedFrom( ""\" ++ [233]%N ++ runes_of_ascii """ ),}, @rightPad ( '\x00' ) match BodyLength as msg_type
+{ [
+1] :int ,""{,}"" :
+    int ,
+    }
 ,
     repeat
+    i16 roots`line1
+line2` ,repeat // trailing space 
+o
+    {  match A
+as T{3:
+    a1 , }
+, repeat
+string Z9_
+`" ++ [233]%N ++ runes_of_ascii "`	, f32 calculatedFrom `100% of %d` ,},	repeat zchar[ 255 ] x , // " ++ [128512]%N ++ runes_of_ascii " emoji
+float32 T `line1
+line2`, @calculatedFrom( """ ++ [28040; 24687]%N ++ runes_of_ascii """ )repeat f32a string_ ,@calculatedFrom( ""1""
+    )
+@tag( 0) @lengthOf( calculatedFrom ) u16 zchar `a\` ,}")).
+Eval vm_compute in ("<<<M220>>>" ++ check (runes_of_ascii "// 50% %s
+packet rootA	{ @lengthOf(u8x )	Z9_ @lengthOf(charz
+) , }
+    packet
+// " ++ [27880; 37322]%N ++ runes_of_ascii "
+//
+crc{	@calculatedFrom(
+    // a // b
+    ""a\""b"" )
+    repeat
+msg_type `{ , }`  ,
+    @tag( 42 ) repeat char[ 42 ] packetx `{ , }`,options1/// triple
+{
+    //
+    zchar[ 4294967296 ]packetx
+    @calculatedFrom( ""CRC32""
+// c
+// `tick` ""quote"" 'q'
+)
+    , // `tick` ""quote"" 'q'
+u128  {	u32
+tag`doc`,
+    },
+} , @leftPad ( '0') falsey
+{match f32a
+as T{ ""a\""b"" : chars,// c
+""a\\""
+    :
+    body,
+    [ ""\n"" , ""CRC32"" , 0// c
+, 10	,
+""" ++ [233]%N ++ runes_of_ascii "t" ++ [233]%N ++ runes_of_ascii """
+    ]
+// " ++ [128512]%N ++ runes_of_ascii " emoji
+// " ++ [27880; 37322]%N ++ runes_of_ascii "
+:
+    packetx	,
+[""a\""b"" /// triple
+] :
+A
+0
+: leftPad
+,
+    /// triple
+    4294967296 :
+BodyLength, } ,msg_type
+// " ++ [27880; 37322]%N ++ runes_of_ascii "
+//
+,
+}
+,}")).
+Eval vm_compute in ("<<<M4058>>>" ++ check (runes_of_ascii "packet
+// a // b
+    	msg_type{@leftPad (
 
-    Quote 
-, },
-zchar[ 
-7
-]Note
-    ,	repeat
+'0'
+) repeat
+	zchar[4294967296
+	]
+    roots  ,
 
-char[  1 ]
-
-Tail
+repeat
+	u32  u128
 	,
 
-}
+@rightPad
+('\x00'  )match
 
-,
-repeat  char[
-2 
-]
-	seqNo
-
-, 
-InTail55 {
-repeat Quote	, 
-string msgKind , InPx18{char[]
-count 
-,  repeat
-	Quote 
-,
-uint16
-	Qty
-	,	},	char[4  ]seqNo	,repeat Heartbeat ,repeat
-string sym ,
-
-}  ,	repeat
-Quote
-, Heartbeat ,@leftPad
-(  ' '
-
-) char[ 10	] 
-OrderId
-,
-    }
-root
-
-    packet 
-Fill{ Heartbeat
-    ,
-
-uint32
-count 
-,
-u8
-    OrderId 
-, match
-OrderId
-as
-
-Body
-	{	96
-:	Quote
-,
-195	:
-	Trade , 187
-
-:
-Heartbeat , }
-    ,  u32 venue
-@calculatedFrom( ""CRC32""
-
-    )
-	, 
-}
-")).
-Eval vm_compute in ("<<<M208>>>" ++ check (runes_of_ascii "packet zchar{
-    uint8x { MetaDataX , match stringy as calculatedFrom { """" : options1,""// no comment""
-: //x
-u
-""\" ++ [233]%N ++ runes_of_ascii """
-:  body
-, [
-""abc""
-    , ""it's"" , // c
-007 ] : packetx
-//	t
-// @lengthOf(
-,65535:
-roots
-, } ,  zchar[	10 ]
-lengthOf`two words`  ,	} // trailing space 
-,
-//
-// packet A { u8 x, }
-} root
-packet Header{repeat f32a o `two words`,
-    @lengthOf(
-    f32a ) char[	42
-]
-    uint8x ,	@tag( 42
-)
-    float@lengthOf(
-MetaDataX  ) , string T	, match _x as leftPad
-    { 0123456789 :
-    stringy, } ,  @leftPad // @lengthOf(
-( )repeat uint8x// c
-{
-string_ { char[ 255] a1 @calculatedFrom( ""abc""
-), metadata @lengthOf(	asx ),
-    } , repeat falsey /// triple
-,
-    Logon { As ,
-repeat char[]// trailing space 
-u
-    , } , },
-    @leftPad
-    (	' '
-    )
-char[ 10
-] charz
-@lengthOf(  float ), @calculatedFrom(
-    """ ++ [233]%N ++ runes_of_ascii "t" ++ [233]%N ++ runes_of_ascii """
-) i64 trueish
-    `two words`
-, } options{ options1	=7
-; u
-    // " ++ [27880; 37322]%N ++ runes_of_ascii "
-    = """" ; } 	 ")).
-Eval vm_compute in ("<<<M54>>>" ++ check (runes_of_ascii "root packet calculatedFrom
-{ /// triple
-@calculatedFrom( // packet A { u8 x, }
-""{,}"" ) match asx
-as i8i8 { ""CRC32"" :f32a	,
-    ""// no comment""	:Packet
-    ,// trailing space 
-}
-,
-    repeat zchar[ 7 ] len , //
-match	options1// c
-as string_	{""" ++ [128512]%N ++ runes_of_ascii """ : metadata ,	[""\n""
-// `tick` ""quote"" 'q'
-//
-,
-    ""CRC32"" , ""a\""b""]
-:
-// " ++ [128512]%N ++ runes_of_ascii " emoji
-// " ++ [128512]%N ++ runes_of_ascii " emoji
-x_y_z // " ++ [27880; 37322]%N ++ runes_of_ascii "
-, 42
-: string_	},@lengthOf(
-msg_type) string Pad
-// trailing space 
-// @lengthOf(
-`tab	here` ,
-f32a
-, match  Logon as stringy { 007
-    :
-    metadata	, [ 255 , 10 ] : matchKey, [
-10 ,""1"",	""`tick`"" , 0]:roots , 255
-// @lengthOf(
-// c
-: o,	[ 1 ]
-: msg_type  , 0123456789
-: falsey	} , } root packet
-crc { }
-    options
-    { falsey =
-false ;len =
-""\" ++ [233]%N ++ runes_of_ascii """// " ++ [27880; 37322]%N ++ runes_of_ascii "
-;A
-=
-""a	b""	lengthOf	= ""1""}
-")).
-Eval vm_compute in ("<<<M150>>>" ++ check (runes_of_ascii "packet
-    Header	{	repeat string
-    Header
-,
-repeat options1  ,	zchar[
-    //	t
-    00 ] matchKey ,} options
-// @lengthOf(
-// `tick` ""quote"" 'q'
-{charz= ""\n"" ; // a // b
-BodyLength = ""x y"" u8x
-    = ""x y""
-    u // `tick` ""quote"" 'q'
-= 255 }
-MetaData u8x{
-// a // b
-// c
-Z9_
-i8i8 , float32  stringy , float msg_type // `tick` ""quote"" 'q'
-`doc`
-    ,
-calculatedFrom T , Foo T `a\` , }	root
-    packet
-    roots
-    {	@tag( 00
-) /// triple
-match// `tick` ""quote"" 'q'
-len
-    as roots {
-    // @lengthOf(
-    [ 4294967296 ]
-    : tag ""// no comment"" :float ,"""" : uint8x ,
-// " ++ [27880; 37322]%N ++ runes_of_ascii "
-// trailing space 
-007
-    // " ++ [27880; 37322]%N ++ runes_of_ascii "
-    :
-    options1 , } , }")).
-Eval vm_compute in ("<<<M1841>>>" ++ check (runes_of_ascii "packet i8i8 {
-    char[] string_ `tab	here`,
-    @lengthOf(T)
-    @lengthOf(uint8x)
-    @rightPad('\x00')
-    zchar[4294967296] f32a @calculatedFrom(""CRC32"") `it's`,
-}// @lengthOf(
-
-root packet A {
-    @rightPad()
-    @calculatedFrom(""" ++ [233]%N ++ runes_of_ascii "t" ++ [233]%N ++ runes_of_ascii """)
-    string T `crlf
-        line`,
-    u64 falsey `two words`,
-    zchar[65535] lengthOf `doc`,
-    match crc as int {
-        [""packet"", ""it's""] : body,
-        007 : leftPad,
-        ""{,}"" : Z9_,
-        [
-            0123456789, 00, ""a\\"", """ ++ [128512]%N ++ runes_of_ascii """, ""\" ++ [233]%N ++ runes_of_ascii """,
-            ""`tick`"", ""it's"", """ ++ [233]%N ++ runes_of_ascii "t" ++ [233]%N ++ runes_of_ascii """
-        ] : x_y_z,
-    },
-}")).
-Eval vm_compute in ("<<<M1604>>>" ++ check (runes_of_ascii "MetaData rootA {
-}
-
-options {
-    rootA = '\x00'
-    zchar = '0'
-    rootA = float64;
-    trueish = 3
-    i64_ = float64;
-}
-
-options {
-    body = '0';
-    T = ""CRC32"";
-    matchKey = char[];
-}
-
-packet rootA {
-    // " ++ [128512]%N ++ runes_of_ascii " emoji
-    @lengthOf(Z9_)
-    @rightPad('0')
-    Packet calculatedFrom,
-}
-
-packet body {
-    match metadata as asx {
-        3 : Header,
-        3 : packetx,
-        [10] : Packet,
-        """" : pack,
-        10 : pack,
-        [255, """", 00, ""it's""] : x,
-    },
-}")).
-Eval vm_compute in ("<<<M173>>>" ++ check (runes_of_ascii "MetaData T  {
-char[] metadata ,
-    // `tick` ""quote"" 'q'
-    i8
-Header
-    //	t
-    ,
-u128 chars `a\` , char[
-    42
-] calculatedFrom
-, } // packet A { u8 x, }
-packet stringy {
-    @rightPad( // c
-)
-    //	t
-    string trueish
-`two words`, } MetaData metadata{ zchar[//
-007]x_y_z
-, zchar[ 10 ] u	`// not a comment`
-    , string u8x, char[]repeatCount// " ++ [128512]%N ++ runes_of_ascii " emoji
-, zchar Pad ,u32 f32a
-    `doc`
-, } // `tick` ""quote"" 'q'")).
-Eval vm_compute in ("<<<M2065>>>" ++ check (runes_of_ascii "
-packet 
-// @lengthOf(
-// " ++ [128512]%N ++ runes_of_ascii " emoji
-  Foo{
-@calculatedFrom(
-    """")  @calculatedFrom( ""1""
-)@rightPad (
-
-    ) int32
-
+x_y_z as 
 As
-	@calculatedFrom(
-    """"  // a // b
-    	) `say ""hi""` // c
-	, @calculatedFrom(
+    {
+007	:	Foo, } ,
 
-    ""\n"")
-	    // trailing space 
-	/// triple
-	char[  // trailing space 
+@leftPad( ' '
 
-  65535]asx
+    )@leftPad
+(
 
-, repeat
+) _x u,
+	@tag( 7 )	repeat 
+chars
 
-int8
-trueish	`{ , }` ,
+{
 
-    }
-root  packet
-    lengthOf  {
+falsey
+leftPad`" ++ [28040; 24687; 31867; 22411]%N ++ runes_of_ascii "`
+,
+zchar[
 
-}")).
-Eval vm_compute in ("<<<M1733>>>" ++ check (runes_of_ascii "
+4294967296 ]
+packetx	@lengthOf( i64_	// " ++ [128512]%N ++ runes_of_ascii " emoji
+	) `doc`
 
-  root
+,
 
-    packet
+    char[1 ]
 
-tag
-	{ }packet
+options1	@calculatedFrom( ""1""
+    )
+	,	} ,
+i64
+    matchKey @calculatedFrom( 
+""x y""	)
+    `line1
+line2` ,
+zchar[
+007
+]
+    uint8x ``,
 
-    MetaDataX{char[ 
-007] 
+@lengthOf(falsey 	 /// triple
+  )
+@calculatedFrom( 
+""" ++ [233]%N ++ runes_of_ascii "t" ++ [233]%N ++ runes_of_ascii """
 
-    // c
-  /// triple
-asx 
-@calculatedFrom(
+    )	// 50% %s
+As { 	 //
+    zchar{
+repeat	int8
 
-""a\""b""
-    ) `say ""hi""` 	 // " ++ [27880; 37322]%N ++ runes_of_ascii "
-  ,
-    @tag( 
-4294967296
+    asx
+	,
+	repeat Packet  , } , }
 
-)
+,
+} ")).
+Eval vm_compute in ("<<<M47>>>" ++ check (runes_of_ascii "root
+packet
+metadata //	t
+{ @lengthOf( rootA ) string
+    Logon@lengthOf( u8x
+    ) , uint8 repeatCount @lengthOf( //x
+crc )
+`it's` , @lengthOf( MetaDataX ) match x as x_y_z { 65535:
+uint8x, // " ++ [27880; 37322]%N ++ runes_of_ascii "
+[	""// no comment""
+    , ""// no comment"" ,  """ ++ [233]%N ++ runes_of_ascii "t" ++ [233]%N ++ runes_of_ascii """ , ""\" ++ [233]%N ++ runes_of_ascii """ , //
+7	, 1,""" ++ [128512]%N ++ runes_of_ascii """] :BodyLength ,
+    """ ++ [128512]%N ++ runes_of_ascii """ :
+    u8x ,65535 :metadata,	""" ++ [233]%N ++ runes_of_ascii "t" ++ [233]%N ++ runes_of_ascii """
+/// triple
+// 50% %s
+: Packet,// packet A { u8 x, }
+} , packetx i8i8
+    `100% of %d` ,  char[] u8x
+    @calculatedFrom(""{,}""  )
+`u8 x,`, zchar[ 3
+] Z9_
+,@calculatedFrom( """"
+    ) @lengthOf(	trueish ) @lengthOf(
+lengthOf) tag , uint64 // packet A { u8 x, }
+metadata // 50% %s
+`100% of %d`
+,
+}
+")).
+Eval vm_compute in ("<<<M3515>>>" ++ check (runes_of_ascii "packet
 
-char[ 1	//x
-	] packetx @calculatedFrom(""a\""b""
+Z9_ 
+{// 50% %s
+    repeat  leftPad
+,
+	} packet	x  { 
+roots
 
-    ) ,
-    // " ++ [128512]%N ++ runes_of_ascii " emoji
-	// a // b
-	  @calculatedFrom(	""" ++ [233]%N ++ runes_of_ascii "t" ++ [233]%N ++ runes_of_ascii """	) 
-repeat	pack
-	pack // " ++ [27880; 37322]%N ++ runes_of_ascii "
-,}	// c")).
-Eval vm_compute in ("<<<M1336>>>" ++ check (runes_of_ascii "// top
+    {  uint16 	 // 50% %s
+	  stringy , match Packet as _x { ""x y"" 
+: 
+matchKey ,
+255: rootA 
+,	7 
+:	Foo 
+,
+""\n""
+
+:
+options1
+
+, }
+
+    ,
+repeat roots {
+match
+int 
+as
+    a1  // trailing space 
+{
+1 :
+asx
+
+""" ++ [28040; 24687]%N ++ runes_of_ascii """
+    : 	 // `tick` ""quote"" 'q'
+    i8i8  ,
+	[
+    0  ,
+
+    1] 
+:
+
+    //
+
+charz
+}
+,
+    // trailing space 
+  },
+
+x_y_z
+
+``  ,
+
+}
+
+,	}
+
+options 	 // @lengthOf(
+  {	uint8x=
+
+'\x00'  ;
+zchar	= 
+' ' ;o  =	""\n"" a1 =
+    zchar[
+0123456789
+]; 
+} root packet Z9_ 
+{ int16
+    Pad
+
+    @lengthOf(
+Header
+
+) `` ,}
+")).
+Eval vm_compute in ("<<<M355>>>" ++ check (runes_of_ascii "packet Z9_ {
+@lengthOf( i8i8)
+match
+    A as Z9_ { 0123456789
+    // 50% %s
+    :	tag, 00 : leftPad
+    ,
+""packet"":
+    trueish
+,
+[ 65535
+]
+: // trailing space 
+T , }
+,// 50% %s
+zchar[ 255 ] i8i8
+, }root// a // b
+packet  leftPad { // c
+repeat charz	{	repeat  i8 stringy
+,	} , asx  {  char[ 42 ]
+    //	t
+    a1 `// not a comment` ,
+    //x
+    char[4294967296
+] A@calculatedFrom( ""a\\"" )
+,	i8
+    _x ,  } ,uint8x msg_type
+// @lengthOf(
+// @lengthOf(
+, roots falsey , }
+MetaData Pad { float32 repeatCount
+// " ++ [27880; 37322]%N ++ runes_of_ascii "
+// `tick` ""quote"" 'q'
+, }
+MetaData int
+{ char[]
+repeatCount , }
+")).
+Eval vm_compute in ("<<<M3412>>>" ++ check (runes_of_ascii "// top
 packet
     // c0
-o
+A
+    // c1
+{ // c2
+u8
+    // c3
+a , // c5a
+  // c5b
+} // c6a
+  // c6b
+packet // c7a
+  // c7b
+B
+    // c8
+{ // c9a
+  // c9b
+u16 // c10a
+  // c10b
+b // c11a
+  // c11b
+,
+    // c12
+} // c13
+root
+    // c14
+packet
+    // c15
+P
+    // c16
+{ // c17a
+  // c17b
+u8
+    // c18
+K , // c20a
+  // c20b
+match K
+    // c22
+as // c23a
+  // c23b
+M
+    // c24
+{ // c25a
+  // c25b
+[ // c26a
+  // c26b
+1 ,
+    // c28
+2
+    // c29
+] : // c31
+A , 3 // c34
+:
+    // c35
+B ,
+    // c37
+7 // c38
+: A // c40
+, // c41a
+  // c41b
+} // c42
+,
+    // c43
+} // c44
+")).
+Eval vm_compute in ("<<<M481>>>" ++ check (runes_of_ascii "packet pack { // " ++ [128512]%N ++ runes_of_ascii " emoji
+stringy{ repeat
+string falsey , char[] Z9_ , repeat i64_ { char[ 10
+] msg_type ,match string_
+as msg_type{
+    3 : x_y_z, [7 ] :o 007: Foo // trailing space 
+, ""{,}"" :
+    T, [ ""CRC32""	, // " ++ [27880; 37322]%N ++ runes_of_ascii "
+""`tick`"" //x
+]	:u128 , // 50% %s
+3 :
+    i64_
+    /// triple
+    ,} , // trailing space 
+} , zchar[ 4294967296 ]
+crc ,
+    } ,  repeat i8i8{ matchKey@lengthOf(  i8i8 )
+`// not a comment`, } , @tag( 4294967296)repeat Logon {
+    string asx
+    `" ++ [233]%N ++ runes_of_ascii "`, } ,matchKey@lengthOf( Pad	),}
+    MetaData leftPad
+    {}
+// " ++ [27880; 37322]%N ++ runes_of_ascii "
+")).
+Eval vm_compute in ("<<<M581>>>" ++ check (runes_of_ascii "root packet Logon { @tag( 65535  ) repeat
+matchKey	{
+Foo
+// c
+// packet A { u8 x, }
+{i16
+    calculatedFrom // `tick` ""quote"" 'q'
+@calculatedFrom(	""`tick`"" ) // 50% %s
+,
+/// triple
+// packet A { u8 x, }
+crc`it's` , }, Packet
+{ repeat string a1
+, A	{uint8 tag
+    // `tick` ""quote"" 'q'
+    , i32 MetaDataX , }, } , i8
+/// triple
+// " ++ [27880; 37322]%N ++ runes_of_ascii "
+uint8x, }  , //x
+leftPad
+    @lengthOf(
+packetx) ,repeat uint16	Foo
+    ,
+@tag( 42// packet A { u8 x, }
+) char[
+00] _x
+    `100% of %d` , } MetaData /// triple
+chars
+    { }
+")).
+Eval vm_compute in ("<<<M3565>>>" ++ check (runes_of_ascii "packet 
+i8i8{ 	 // 50% %s
+  @rightPad ( ' '
+)  @lengthOf(  i64_
+
+) @calculatedFrom(
+    ""abc""
+) string
+crc
+@calculatedFrom( 
+""" ++ [128512]%N ++ runes_of_ascii """
+), char[
+
+7  ] float
+
+@calculatedFrom( ""{,}""
+    )
+    ,  @rightPad
+(
+	'\x00'
+
+)
+match _x 
+as
+
+    As 
+{ 
+  // " ++ [27880; 37322]%N ++ runes_of_ascii "
+
+// `tick` ""quote"" 'q'
+  ""\n"" :asx  [
+	7	,
+
+""" ++ [28040; 24687]%N ++ runes_of_ascii """, ""\n"" ,0	,1  ] :
+	leftPad  , 0123456789 :len """ ++ [128512]%N ++ runes_of_ascii """:
+
+    Header , 
+""a\\"":  // " ++ [27880; 37322]%N ++ runes_of_ascii "
+
+  u, 
+4294967296  /// triple
+  :
+	a1 },
+
+    @calculatedFrom(
+	""\n""
+)
+
+float32 
+Header	``,// " ++ [128512]%N ++ runes_of_ascii " emoji
+  }")).
+Eval vm_compute in ("<<<M737>>>" ++ check (runes_of_ascii "MetaData float {  i64_
+    roots , char[ 007
+    ]
+int, /// triple
+msg_type
+    rootA
+// " ++ [27880; 37322]%N ++ runes_of_ascii "
+/// triple
+,
+    char[	255 ]x_y_z
+`crlf
+line` ,
+uint8x	body, }	options { // " ++ [128512]%N ++ runes_of_ascii " emoji
+msg_type =false} packet
+string_	{o Pad ,zchar[0123456789 ] zchar
+    @calculatedFrom( ""CRC32"" ) , uint8  matchKey , }options { //
+T= f32 ;options1 // packet A { u8 x, }
+= """" ; matchKey = """ ++ [233]%N ++ runes_of_ascii "t" ++ [233]%N ++ runes_of_ascii """
+;
+    x// packet A { u8 x, }
+= ""x y"" packetx =
+    // 50% %s
+    ""x y""
+//
+// a // b
+}
+")).
+Eval vm_compute in ("<<<M312>>>" ++ check (runes_of_ascii "packet
+    Pad { crc /// triple
+@lengthOf( // trailing space 
+u128 ),
+x
+`tab	here`
+// trailing space 
+//x
+,match roots as _x
+{  ["""", 1
+    ] :// trailing space 
+pack
+// " ++ [128512]%N ++ runes_of_ascii " emoji
+//
+[ """ ++ [233]%N ++ runes_of_ascii "t" ++ [233]%N ++ runes_of_ascii """,
+""x y""
+,	""abc"" //	t
+,
+    0]	:// @lengthOf(
+pack  ,65535 :
+falsey } ,
+    uint8 o
+    ,lengthOf @lengthOf( Z9_
+) // @lengthOf(
+, // trailing space 
+uint8 // packet A { u8 x, }
+_x `two words` , leftPad  , repeatCount
+@calculatedFrom(
+""abc"" ) , }")).
+Eval vm_compute in ("<<<M57>>>" ++ check (runes_of_ascii "packet //	t
+trueish
+{/// triple
+string crc`two words`,
+T chars , }
+packet
+asx	{ @leftPad ( '0'
+) match x as u8x { [ ""{,}"" ,
+1 ,
+65535, ""// no comment""	,  7,3 ,// c
+10
+,	42 ]:
+    o ,
+}
+, // c
+@leftPad(	'0'	) //	t
+repeat	int64
+    f32a`doc` ,  @tag( 4294967296)	@rightPad
+    (
+// trailing space 
+//x
+' ') @tag( 3)	o
+`u8 x,` ,} packet	options1//x
+{ // `tick` ""quote"" 'q'
+char crc,
+    rootA
+//
+// a // b
+`a\` ,
+    }
+")).
+Eval vm_compute in ("<<<M890>>>" ++ check (runes_of_ascii "packet chars	{}
+    packet leftPad {
+    // `tick` ""quote"" 'q'
+    @tag(3 )
+    // packet A { u8 x, }
+    As @calculatedFrom( ""abc"" ) /// triple
+, //x
+repeat//
+string
+rootA // a // b
+,
+repeat	char[] falsey
+    // c
+    `{ , }`
+, char[]
+zchar @calculatedFrom(
+    ""\" ++ [233]%N ++ runes_of_ascii """
+    )
+``
+    ,  } MetaData lengthOf{char[
+255  ] MetaDataX
+`{ , }` ,
+    // a // b
+    } packet charz  { // 50% %s
+i64
+    charz , }
+")).
+Eval vm_compute in ("<<<M1227>>>" ++ check (runes_of_ascii "packet o
+{repeat
+int8 o
+, }
+MetaData i8i8{ falsey _x , leftPad
+body
+,char[
+65535 ] float `two words`
+    , f32
+BodyLength , }
+MetaData a1 {
+    uint64 Header , packetx packetx `it's`, int16 lengthOf
+, x x_y_z, } packet roots //x
+{ @calculatedFrom(
+""// no comment""
+) x_y_z// packet A { u8 x, }
+, } options	{tag =
+string
+    ; pack =65535; leftPad	=char[65535 ]
+Z9_
+    = ""`tick`"" ;
+}
+
+")).
+Eval vm_compute in ("<<<M1204>>>" ++ check (runes_of_ascii "  packet
+len{	u
+Header
+, // trailing space 
+u128  , match _x as msg_type
+    { 1	:	BodyLength , 42 : packetx ,
+/// triple
+//x
+[
+    ""{,}"" ] : //
+chars
+    // `tick` ""quote"" 'q'
+    , [ ""`tick`"" , 0 ,""" ++ [233]%N ++ runes_of_ascii "t" ++ [233]%N ++ runes_of_ascii """ ,
+65535
+, //
+""packet"",
+    ""{,}""] //	t
+: chars ,
+    // packet A { u8 x, }
+    3 :	packetx , 7	: crc ,
+    }, } MetaData
+    Z9_	{}
+    packet repeatCount	{ //	t
+}
+")).
+Eval vm_compute in ("<<<M564>>>" ++ check (runes_of_ascii "packet metadata {	@calculatedFrom(
+""" ++ [128512]%N ++ runes_of_ascii """ //
+)
+    //
+    repeat chars { repeat
+falsey o
+,
+int32 falsey @calculatedFrom(
+""`tick`"" ) ,
+}	, }	options { // packet A { u8 x, }
+falsey = ""1"" ;matchKey =
+    string ;	BodyLength =""\" ++ [233]%N ++ runes_of_ascii """
+    ;// " ++ [128512]%N ++ runes_of_ascii " emoji
+calculatedFrom =true }packet
+    Foo { _x
+    falsey,string_ x_y_z`two words`
+    , msg_type body
+`say ""hi""`, }
+
+")).
+Eval vm_compute in ("<<<M104>>>" ++ check (runes_of_ascii "// a // b
+root
+packet falsey // " ++ [27880; 37322]%N ++ runes_of_ascii "
+{ }
+packet	i8i8 { char[] body `" ++ [233]%N ++ runes_of_ascii "` , }
+packet
+Logon  { @calculatedFrom( ""\n"") @tag(7 ) @calculatedFrom( ""1"" )
+repeat  char[// " ++ [27880; 37322]%N ++ runes_of_ascii "
+1
+/// triple
+// c
+] float `" ++ [233]%N ++ runes_of_ascii "` ,
+    @lengthOf( As
+)
+    // " ++ [27880; 37322]%N ++ runes_of_ascii "
+    lengthOf@calculatedFrom( ""`tick`"" ), @lengthOf( Foo) repeat char[ 0123456789 ] a1 , Packet `tab	here` ,
+}
+")).
+Eval vm_compute in ("<<<M165>>>" ++ check (runes_of_ascii "options { charz= ""x y""
+    ;
+}MetaData Pad
+{
+    }
+packet As
+{
+    } packet
+body { match matchKey as f32a{""a\\"" : tag ,007
+:
+    tag , 3 : //	t
+Packet ,
+[ // c
+""{,}"" // packet A { u8 x, }
+, ""a\\"" , ""{,}"" ]
+:
+// @lengthOf(
+//x
+MetaDataX  ,
+// c
+// " ++ [128512]%N ++ runes_of_ascii " emoji
+} , repeat zchar[1 ]
+    x_y_z `doc` ,
+} packet BodyLength {
+}")).
+Eval vm_compute in ("<<<M366>>>" ++ check (runes_of_ascii "packet pack{ match
+    options1 as
+    trueish { 10 :	packetx , [ ""a\\""
+// @lengthOf(
+//x
+,// 50% %s
+00 ,
+    // `tick` ""quote"" 'q'
+    007
+    // `tick` ""quote"" 'q'
+    , 00 ]:
+f32a// " ++ [128512]%N ++ runes_of_ascii " emoji
+,[ 0123456789
+, ""it's""
+// a // b
+// trailing space 
+,""a\\""] :body , }
+, a1 // a // b
+`it's` , repeat
+    A
+,}
+//	t
+")).
+Eval vm_compute in ("<<<M3380>>>" ++ check (runes_of_ascii "// top
+packet
+    // c0
+B
     // c1
 {
     // c2
-repeat
-    // c3
-Logon
-    // c4
-uint8x
-    // c5
-,
-    // c6
-}
-    // c7
-options
-    // c8
-{
-    // c9
-asx
-    // c10
-=
-    // c11
-zchar[
-    // c12
-3
-    // c13
-]
-    // c14
-stringy
-    // c15
-=
-    // c16
-'\x00'
-    // c17
-}
-    // c18
-")).
-Eval vm_compute in ("<<<M564>>>" ++ check (runes_of_ascii "root packet tag { }  packet MetaDataX{char[007	]
-// c
-/// triple
-asx  @calculatedFrom( ""a\""b""
-) `say ""hi""`// " ++ [27880; 37322]%N ++ runes_of_ascii "
-,  @tag( @tag(4294967296 )
-    char[1//x
-] packetx @calculatedFrom(""a\""b""
-    ) ,
-// " ++ [128512]%N ++ runes_of_ascii " emoji
-// a // b
-@calculatedFrom(""" ++ [233]%N ++ runes_of_ascii "t" ++ [233]%N ++ runes_of_ascii """  ) repeat pack // " ++ [27880; 37322]%N ++ runes_of_ascii "
-,
-    } // c")).
-Eval vm_compute in ("<<<M559>>>" ++ check (runes_of_ascii "root packet tag { }  packet MetaDataX{char[007	]
-// c
-/// triple
-asx  @calculatedFrom( ""a\""b""
-) `say ""hi""`// " ++ [27880; 37322]%N ++ runes_of_ascii "
-, ,  @tag(4294967296 )
-    char[1//x
-] packetx @calculatedFrom(""a\""b""
-    ) ,
-// " ++ [128512]%N ++ runes_of_ascii " emoji
-// a // b
-@calculatedFrom(""" ++ [233]%N ++ runes_of_ascii "t" ++ [233]%N ++ runes_of_ascii """  ) repeat pack // " ++ [27880; 37322]%N ++ runes_of_ascii "
-,
-    } // c")).
-Eval vm_compute in ("<<<M668>>>" ++ check (runes_of_ascii "root packet tag { }  packet MetaData<X{char[007	]
-// c
-/// triple
-asx  @calculatedFrom( ""a\""b""
-) `say ""hi""`// " ++ [27880; 37322]%N ++ runes_of_ascii "
-,  @tag(4294967296 )
-    char[1//x
-] packetx @calculatedFrom(""a\""b""
-    ) ,
-// " ++ [128512]%N ++ runes_of_ascii " emoji
-// a // b
-@calculatedFrom(""" ++ [233]%N ++ runes_of_ascii "t" ++ [233]%N ++ runes_of_ascii """  ) repeat pack // " ++ [27880; 37322]%N ++ runes_of_ascii "
-,
-    } // c")).
-Eval vm_compute in ("<<<M625>>>" ++ check (runes_of_ascii "root packet tag { }  packet MetaDataX{char[007	]
-// c
-/// triple
-asx  @calculatedFrom( ""a\""b""
-) `say ""hi""`// " ++ [27880; 37322]%N ++ runes_of_ascii "
-,  @tag(4294967296 )
-    char[1//x
-] packetx @calculatedFrom(""a\""b""
-    ) ,
-// " ++ [128512]%N ++ runes_of_ascii " emoji
-// a // b
-@calculatedFrom()  """ ++ [233]%N ++ runes_of_ascii "t" ++ [233]%N ++ runes_of_ascii """ repeat pack // " ++ [27880; 37322]%N ++ runes_of_ascii "
-,
-    } // c")).
-Eval vm_compute in ("<<<M488>>>" ++ check (runes_of_ascii "root packet  { }  packet MetaDataX{char[007	]
-// c
-/// triple
-asx  @calculatedFrom( ""a\""b""
-) `say ""hi""`// " ++ [27880; 37322]%N ++ runes_of_ascii "
-,  @tag(4294967296 )
-    char[1//x
-] packetx @calculatedFrom(""a\""b""
-    ) ,
-// " ++ [128512]%N ++ runes_of_ascii " emoji
-// a // b
-@calculatedFrom(""" ++ [233]%N ++ runes_of_ascii "t" ++ [233]%N ++ runes_of_ascii """  ) repeat pack // " ++ [27880; 37322]%N ++ runes_of_ascii "
-,
-    } // c")).
-Eval vm_compute in ("<<<M601>>>" ++ check (runes_of_ascii "root packet tag { }  packet MetaDataX{char[007	]
-// c
-/// triple
-asx  @calculatedFrom( ""a\""b""
-) `say ""hi""`// " ++ [27880; 37322]%N ++ runes_of_ascii "
-,  @tag(4294967296 )
-    char[1//x
-] packetx char[""a\""b""
-    ) ,
-// " ++ [128512]%N ++ runes_of_ascii " emoji
-// a // b
-@calculatedFrom(""" ++ [233]%N ++ runes_of_ascii "t" ++ [233]%N ++ runes_of_ascii """  ) repeat pack // " ++ [27880; 37322]%N ++ runes_of_ascii "
-,
-    } // c")).
-Eval vm_compute in ("<<<M301>>>" ++ check (runes_of_ascii "  MetaData // c
-crc
-{ i64 matchKey,
-    _x msg_type//
-, zchar zchar
-    ,
-    MetaDataX	matchKey
-    `a\` ,
-    u32 Header // " ++ [128512]%N ++ runes_of_ascii " emoji
-, } MetaData
-_x{
-    } root packet
-    calculatedFrom
-// `tick` ""quote"" 'q'
-// @lengthOf(
-{	}
-")).
-Eval vm_compute in ("<<<M79>>>" ++ check (runes_of_ascii "root packet Foo {i16 BodyLength `// not a comment`
-    // c
-    ,
-    //x
-    }options { // packet A { u8 x, }
-} options
-    {Z9_ = // trailing space 
-false msg_type //
-=
-true f32a = ' ' zchar  =""`tick`"";}
-")).
-Eval vm_compute in ("<<<M138>>>" ++ check (runes_of_ascii "options
-{ MetaDataX=""\n""
-    /// triple
-    stringy = 4294967296 ; Packet=
-    false	; As = ""a\\"" /// triple
-; stringy = ' ';} options {
-}
-    MetaData roots {
-stringy MetaDataX
-    , }")).
-Eval vm_compute in ("<<<M415>>>" ++ check (runes_of_ascii "packet
-    // `tick` ""quote"" 'q'
-    crc
-// packet A { u8 x, }
-//	t
-{
-u32 a1 ,
-    // trailing space 
-    roots roots
-charz //
-`two words`,	}
-    MetaData int {
-} /// triple")).
-Eval vm_compute in ("<<<M437>>>" ++ check (runes_of_ascii "packet
-    // `tick` ""quote"" 'q'
-    crc
-// packet A { u8 x, }
-//	t
-{
-u32 a1 ,
-    // trailing space 
-    roots
-charz //
-`two words`,	i16
-    MetaData int {
-} /// triple")).
-Eval vm_compute in ("<<<M401>>>" ++ check (runes_of_ascii "packet
-    // `tick` ""quote"" 'q'
-    crc
-// packet A { u8 x, }
-//	t
-{
-a1 u32 ,
-    // trailing space 
-    roots
-charz //
-`two words`,	}
-    MetaData int {
-} /// triple")).
-Eval vm_compute in ("<<<M434>>>" ++ check (runes_of_ascii "packet
-    // `tick` ""quote"" 'q'
-    crc
-// packet A { u8 x, }
-//	t
-{
-u32 a1 ,
-    // trailing space 
-    roots
-charz //
-`two words`,	
-    MetaData int {
-} /// triple")).
-Eval vm_compute in ("<<<M419>>>" ++ check (runes_of_ascii "packet
-    // `tick` ""quote"" 'q'
-    crc
-// packet A { u8 x, }
-//	t
-{
-u32 a1 ,
-    // trailing space 
-    roots
- //
-`two words`,	}
-    MetaData int {
-} /// triple")).
-Eval vm_compute in ("<<<M1693>>>" ++ check (runes_of_ascii "options {
-    matchKey = 10
-}
-
-MetaData options1 {
-    matchKey o `doc`,
-    rootA tag,
-    uint32 _x `line1
-        line2`,
-    char[] chars `say ""hi""`,
-}")).
-Eval vm_compute in ("<<<M592>>>" ++ check (runes_of_ascii "root packet tag { }  packet MetaDataX{char[007	]
-// c
-/// triple
-asx  @calculatedFrom( ""a\""b""
-) `say ""hi""`// " ++ [27880; 37322]%N ++ runes_of_ascii "
-,  @tag(4294967296 )
-    char[1")).
-Eval vm_compute in ("<<<M1601>>>" ++ check (runes_of_ascii "  packet
-A
-
-    {	match
-
-    k
-as
-
-n	{ [ ""a"" ,  22,
-
-""c c"" ,
-
-4 
-,""e"" ,
-66,
-
-""g"",
-
-    8 , 
-""i""
-	,
-
-10] :
-B 2
-:
-    C } 
-,
-    }")).
-Eval vm_compute in ("<<<M1955>>>" ++ check (runes_of_ascii "packet A {
-    match k
-
-as
-	n
-	{ 
-[ ""a""
-    , 
-""bb"" , ""c c""
-    ,
-""d"",
-    ""e""
-	, ""f"" , ""g""  ,""h"" ] :
-
-    B
-
-,
-2: C
-}
-
+u8 // c3
+a // c4
+, // c5
+string // c6a
+  // c6b
+s // c7a
+  // c7b
 , }
+    // c9
+root
+    // c10
+packet P // c12
+{ // c13
+u16 // c14
+L // c15a
+  // c15b
+@lengthOf( B // c17
+) // c18
+, B
+    // c20
+, // c21a
+  // c21b
+u8 // c22
+t
+    // c23
+, } // c25
 ")).
-Eval vm_compute in ("<<<M1231>>>" ++ check (runes_of_ascii "root packet matchKey { zchar[ // c
-3 ] pack @calculatedFrom( ""a	b"" ) `doc` , } options { } MetaData A { int8 msg_type , }")).
-Eval vm_compute in ("<<<M1263>>>" ++ check (runes_of_ascii "root packet matchKey { zchar[ 3 ] pack @calculatedFrom( ""a	b"" ) `doc` , } options { } MetaData A { int8 // c
-msg_type , }")).
-Eval vm_compute in ("<<<M1686>>>" ++ check (runes_of_ascii "
+Eval vm_compute in ("<<<M790>>>" ++ check (runes_of_ascii "packet
+    Header
+    {
+char[] MetaDataX`" ++ [28040; 24687; 31867; 22411]%N ++ runes_of_ascii "`
+, } packet Foo { int64 stringy
+, int // `tick` ""quote"" 'q'
+`" ++ [233]%N ++ runes_of_ascii "`
+    ,repeat zchar[
+00 ]
+    Header
+`" ++ [233]%N ++ runes_of_ascii "` ,
+    crc pack
+,	}options {/// triple
+trueish
+=
+    //x
+    ""abc"" ; u128 =
+// packet A { u8 x, }
+//
+true ; stringy // a // b
+=
+7 ;	}
+")).
+Eval vm_compute in ("<<<M1082>>>" ++ check (runes_of_ascii "packet As{ // " ++ [128512]%N ++ runes_of_ascii " emoji
+roots ,
+    @tag( 00)
+    Foo
+// a // b
+// 50% %s
+, repeat int16 Z9_ ,
+//x
+// a // b
+@lengthOf( u8x )u8x {
+repeat uint64
+asx , //	t
+repeat int `two words` // packet A { u8 x, }
+, char[ 1 ] uint8x@calculatedFrom(""\" ++ [233]%N ++ runes_of_ascii """	) ,
+    }
+, } // trailing space ")).
+Eval vm_compute in ("<<<M1607>>>" ++ check (runes_of_ascii "// 50% %s
+packet	a1
+    { zchar[
+// a // b
+// 50% %s
+007]
+T `it's`
+    ,@rightPad
+    // a // b
+    (
+'\x00')
+    o repeatCount , }  packet Logon Logon {  }packet	Logon //x
+{ repeat // " ++ [128512]%N ++ runes_of_ascii " emoji
+uint16 u128
+    //
+    `a\`,
+falsey
+@calculatedFrom(""packet"" ) ,
+    } 	 ")).
+Eval vm_compute in ("<<<M1542>>>" ++ check (runes_of_ascii "// 50% %s
+packet	a1
+    { zchar[
+// a // b
+// 50% %s
+007] ]
+T `it's`
+    ,@rightPad
+    // a // b
+    (
+'\x00')
+    o repeatCount , }  packet Logon {  }packet	Logon //x
+{ repeat // " ++ [128512]%N ++ runes_of_ascii " emoji
+uint16 u128
+    //
+    `a\`,
+falsey
+@calculatedFrom(""packet"" ) ,
+    } 	 ")).
+Eval vm_compute in ("<<<M1700>>>" ++ check (runes_of_ascii "// 50% %s
+packet	a1
+    { zchar[
+// a // b
+// 50% %s
+007]
+T `it's`
+    ,@rightPad
+    // a // b
+    (
+'\x00')
+    o repeatCount , }  packet Logon <{  }packet	Logon //x
+{ repeat // " ++ [128512]%N ++ runes_of_ascii " emoji
+uint16 u128
+    //
+    `a\`,
+falsey
+@calculatedFrom(""packet"" ) ,
+    } 	 ")).
+Eval vm_compute in ("<<<M1653>>>" ++ check (runes_of_ascii "// 50% %s
+packet	a1
+    { zchar[
+// a // b
+// 50% %s
+007]
+T `it's`
+    ,@rightPad
+    // a // b
+    (
+'\x00')
+    o repeatCount , }  packet Logon {  }packet	Logon //x
+{ repeat // " ++ [128512]%N ++ runes_of_ascii " emoji
+uint16 u128
+    //
+    ,`a\`
+falsey
+@calculatedFrom(""packet"" ) ,
+    } 	 ")).
+Eval vm_compute in ("<<<M1644>>>" ++ check (runes_of_ascii "// 50% %s
+packet	a1
+    { zchar[
+// a // b
+// 50% %s
+007]
+T `it's`
+    ,@rightPad
+    // a // b
+    (
+'\x00')
+    o repeatCount , }  packet Logon {  }packet	Logon //x
+{ repeat // " ++ [128512]%N ++ runes_of_ascii " emoji
+root u128
+    //
+    `a\`,
+falsey
+@calculatedFrom(""packet"" ) ,
+    } 	 ")).
+Eval vm_compute in ("<<<M1601>>>" ++ check (runes_of_ascii "// 50% %s
+packet	a1
+    { zchar[
+// a // b
+// 50% %s
+007]
+T `it's`
+    ,@rightPad
+    // a // b
+    (
+'\x00')
+    o repeatCount , }   Logon {  }packet	Logon //x
+{ repeat // " ++ [128512]%N ++ runes_of_ascii " emoji
+uint16 u128
+    //
+    `a\`,
+falsey
+@calculatedFrom(""packet"" ) ,
+    } 	 ")).
+Eval vm_compute in ("<<<M3569>>>" ++ check (runes_of_ascii "  packet
+    zchar	{	Logon  a1
+	, u128`
+`,
+@lengthOf( charz )
+
+i64
+	u8x
+@lengthOf( msg_type) 
+`// not a comment`
+, repeat	roots
+	a1 
+,
+    asx	msg_type
+	`crlf
+line`
+
+    ,@tag(
+    42
+)
+        /// triple
+  u64	metadata
+    `{ , }`
+
+    , 
+}
+
+")).
+Eval vm_compute in ("<<<M429>>>" ++ check (runes_of_ascii "options
+{ roots =
+    007 u128 =
+""abc"" zchar
+    =
+    // 50% %s
+    int16
+;// packet A { u8 x, }
+} root
+packet
+Z9_ // 50% %s
+{ }MetaData
+u // " ++ [27880; 37322]%N ++ runes_of_ascii "
+{ repeatCount u, chars uint8x// c
+,char[]
+    packetx  , uint16 T `two words` , _x T  , }
+
+")).
+Eval vm_compute in ("<<<M3631>>>" ++ check (runes_of_ascii "options {
+    // a // b
+}
+
+packet lengthOf {
+    // trailing space 
+    u64 string_ @lengthOf(MetaDataX),
+}
+
+MetaData _x {
+    char[] leftPad `" ++ [233]%N ++ runes_of_ascii "`,
+    i64 a1,
+    float32 A `{ , }`,
+    i16 crc,
+    MetaDataX metadata `say ""hi""`,
+}")).
+Eval vm_compute in ("<<<M317>>>" ++ check (runes_of_ascii "
+packet
+// a // b
+// packet A { u8 x, }
+i8i8 {u@calculatedFrom(
+""" ++ [233]%N ++ runes_of_ascii "t" ++ [233]%N ++ runes_of_ascii """)
+`doc`
+    ,
+} // packet A { u8 x, }
+options
+    {
+u8x =true x_y_z = ' ' ;  }
+//x
+/// triple
+MetaData BodyLength{ u128// `tick` ""quote"" 'q'
+float ,}")).
+Eval vm_compute in ("<<<M4152>>>" ++ check (runes_of_ascii "MetaData zchar {
+    char[] rootA,
+}
+
+MetaData roots {
+    int16 Logon,
+    u32 matchKey `say ""hi""`,
+    char[00] f32a `line1
+    line2`,// trailing space 
+    packetx matchKey,
+}
+
+MetaData u {
+    string len,
+}")).
+Eval vm_compute in ("<<<M673>>>" ++ check (runes_of_ascii "
+MetaData x { Logon a1
+    `two words` , }
+options { roots =	""" ++ [128512]%N ++ runes_of_ascii """;} options
+    {	u8x	= ""a	b""lengthOf = ""// no comment""; T  = float64 ;
+} // a // b
+packet
+MetaDataX
+{ metadata trueish  `100% of %d` , }
+")).
+Eval vm_compute in ("<<<M373>>>" ++ check (runes_of_ascii "// c
+options {// a // b
+}
+packet chars	{
+Foo
+repeatCount, } root packet BodyLength { // c
+@leftPad (
+) repeat x_y_z {string_
+/// triple
+// packet A { u8 x, }
+metadata `two words`
+,}
+    ,	}")).
+Eval vm_compute in ("<<<M578>>>" ++ check (runes_of_ascii "packet BodyLength {	} options {Logon
+    // " ++ [128512]%N ++ runes_of_ascii " emoji
+    = ""CRC32"" ;_x
+//	t
+// 50% %s
+= 3 pack
+= '\x00' options1=
+    true Pad	= 4294967296 }
+packet falsey{ i32 pack `crlf
+line`, }
+")).
+Eval vm_compute in ("<<<M979>>>" ++ check (runes_of_ascii "root
+packet
+    roots
+{
+    repeat stringy uint8x
+, repeatCount {char metadata @lengthOf(_x ) // @lengthOf(
+`crlf
+line`,
+    //
+    repeatCount { char msg_type ,} ,	}, }")).
+Eval vm_compute in ("<<<M3288>>>" ++ check (runes_of_ascii "// top
+packet // c0a
+  // c0b
+u8x { } MetaData // c4
+crc // c5
+{
+    // c6
+char[ // c7
+4294967296 // c8
+] // c9a
+  // c9b
+Foo // c10a
+  // c10b
+, // c11
+}
+    // c12
+")).
+Eval vm_compute in ("<<<M155>>>" ++ check (runes_of_ascii "MetaData matchKey { calculatedFrom A `
+` ,  }
+    options { tag=
+""\" ++ [233]%N ++ runes_of_ascii """ ; Logon = ' '
+    Header
+= true ; } options { packetx = zchar[
+    // " ++ [128512]%N ++ runes_of_ascii " emoji
+    3  ]}
+")).
+Eval vm_compute in ("<<<M2081>>>" ++ check (runes_of_ascii "MetaData BodyLength
+{ int8 Foo
+, string
+    MetaDataX MetaDataX , float zchar ,pack options1
+,asx string_, }
+packet u8x {Foo@lengthOf(charz )
+`" ++ [28040; 24687; 31867; 22411]%N ++ runes_of_ascii "`,  }
+")).
+Eval vm_compute in ("<<<M357>>>" ++ check (runes_of_ascii "options { asx
+= true //
+Header = char[4294967296
+    ]
+;pack
+    // " ++ [128512]%N ++ runes_of_ascii " emoji
+    =//x
+1;
+    x_y_z =
+42 ;
+//
+// " ++ [128512]%N ++ runes_of_ascii " emoji
+Z9_
+    =
+    zchar[ 7 ] }
+")).
+Eval vm_compute in ("<<<M2116>>>" ++ check (runes_of_ascii "MetaData BodyLength
+{ int8 Foo
+, string
+    MetaDataX , float zchar ,pack options1
+, ,asx string_, }
+packet u8x {Foo@lengthOf(charz )
+`" ++ [28040; 24687; 31867; 22411]%N ++ runes_of_ascii "`,  }
+")).
+Eval vm_compute in ("<<<M2200>>>" ++ check (runes_of_ascii "MetaData BodyLength
+{ int8 Foo
+, stri~ng
+    MetaDataX , float zchar ,pack options1
+,asx string_, }
+packet u8x {Foo@lengthOf(charz )
+`" ++ [28040; 24687; 31867; 22411]%N ++ runes_of_ascii "`,  }
+")).
+Eval vm_compute in ("<<<M2133>>>" ++ check (runes_of_ascii "MetaData BodyLength
+{ int8 Foo
+, string
+    MetaDataX , float zchar ,pack options1
+,asx string_{ }
+packet u8x {Foo@lengthOf(charz )
+`" ++ [28040; 24687; 31867; 22411]%N ++ runes_of_ascii "`,  }
+")).
+Eval vm_compute in ("<<<M2180>>>" ++ check (runes_of_ascii "MetaData BodyLength
+{ int8 Foo
+, string
+    MetaDataX , float zchar ,pack options1
+,asx string_, }
+packet u8x {Foo@lengthOf(charz )
+`" ++ [28040; 24687; 31867; 22411]%N ++ runes_of_ascii "`  }
+")).
+Eval vm_compute in ("<<<M2063>>>" ++ check (runes_of_ascii "MetaData BodyLength
+{ ; Foo
+, string
+    MetaDataX , float zchar ,pack options1
+,asx string_, }
+packet u8x {Foo@lengthOf(charz )
+`" ++ [28040; 24687; 31867; 22411]%N ++ runes_of_ascii "`,  }
+")).
+Eval vm_compute in ("<<<M2343>>>" ++ check (runes_of_ascii "options
+    {
+x_y_z// " ++ [27880; 37322]%N ++ runes_of_ascii "
+= 10 ; }
+packet body {
+    @calculatedFrom(
+// trailing space 
+// " ++ [27880; 37322]%N ++ runes_of_ascii "
+""1""
+)	match T as Foo
+    '1' {
+255 :T , }
+,}")).
+Eval vm_compute in ("<<<M2017>>>" ++ check (runes_of_ascii "
+packet leftPad {
+@leftPad( '0')
+u32
+i64_ `100% of %d` ,repeat// 50% %s
+i8 chars
+    ,
+} MetaData
+    f32a
+{ { // packet A { u8 x, }
+}")).
+Eval vm_compute in ("<<<M952>>>" ++ check (runes_of_ascii "packet chars { char[]
+    Pad @lengthOf( u128 )
+    // a // b
+    `it's`,
+@tag( 4294967296
+    )
+    MetaDataX tag`` , Logon `{ , }` ,}
+")).
+Eval vm_compute in ("<<<M1948>>>" ++ check (runes_of_ascii "
+packet leftPad {
+@leftPad'0' ()
+u32
+i64_ `100% of %d` ,repeat// 50% %s
+i8 chars
+    ,
+} MetaData
+    f32a
+{ // packet A { u8 x, }
+}")).
+Eval vm_compute in ("<<<M2260>>>" ++ check (runes_of_ascii "options
+    {
+x_y_z// " ++ [27880; 37322]%N ++ runes_of_ascii "
+= 10 ; }
+packet body {
+    ""1""
+// trailing space 
+// " ++ [27880; 37322]%N ++ runes_of_ascii "
+@calculatedFrom(
+)	match T as Foo
+    {
+255 :T , }
+,}")).
+Eval vm_compute in ("<<<M2080>>>" ++ check (runes_of_ascii "MetaData BodyLength
+{ int8 Foo
+, string
+     , float zchar ,pack options1
+,asx string_, }
+packet u8x {Foo@lengthOf(charz )
+`" ++ [28040; 24687; 31867; 22411]%N ++ runes_of_ascii "`,  }
+")).
+Eval vm_compute in ("<<<M2276>>>" ++ check (runes_of_ascii "options
+    {
+x_y_z// " ++ [27880; 37322]%N ++ runes_of_ascii "
+= 10 ; }
+packet body {
+    @calculatedFrom(
+// trailing space 
+// " ++ [27880; 37322]%N ++ runes_of_ascii "
+""1""
+)	i16 T as Foo
+    {
+255 :T , }
+,}")).
+Eval vm_compute in ("<<<M2413>>>" ++ check (runes_of_ascii "MetaData
+    calculatedFrom
+{ zchar[  10 ]
+    " ++ [127]%N ++ runes_of_ascii " As`tab	here`,
+    }// trailing space 
+options  { roots ='\x00' ; } packet A
+{ }
+")).
+Eval vm_compute in ("<<<M2416>>>" ++ check (runes_of_ascii "MetaData
+    calculatedFrom
+{ 10  zchar[ ]
+    As`tab	here`,
+    }// trailing space 
+options  { roots ='\x00' ; } packet A
+{ }
+")).
+Eval vm_compute in ("<<<M3976>>>" ++ check (runes_of_ascii "MetaData uint8x {
+    leftPad Pad `crlf
+    line`,
+    char[3] falsey,
+    zchar[0123456789] a1,
+    string float `{ , }`,
+}")).
+Eval vm_compute in ("<<<M1163>>>" ++ check (runes_of_ascii "MetaData A {
+    } packet zchar
+// packet A { u8 x, }
+// `tick` ""quote"" 'q'
+{
+    /// triple
+    } options { } /// triple")).
+Eval vm_compute in ("<<<M853>>>" ++ check (runes_of_ascii "MetaData leftPad
+    // c
+    {
+int8  falsey
+    `line1
+line2`,
+    } /// triple
+options
+{BodyLength = //	t
+'0'
+; }")).
+Eval vm_compute in ("<<<M3397>>>" ++ check (runes_of_ascii "// top
+root // c0a
+  // c0b
+packet // c1a
+  // c1b
+P
+    // c2
+{
+    // c3
+string // c4
+s // c5
+, // c6a
+  // c6b
+} ")).
+Eval vm_compute in ("<<<M1844>>>" ++ check (runes_of_ascii "packet o {
+    `it's` roots
+// trailing space 
+//x
+, char[ 42
+    ]  A, // " ++ [27880; 37322]%N ++ runes_of_ascii "
+f64
+repeatCount
+    `crlf
+line`
+,}")).
+Eval vm_compute in ("<<<M3846>>>" ++ check (runes_of_ascii "
+packet A{ u16 len  @lengthOf(
+body 
+) 
+`a
+b`
+,	u32
+crc
+    @calculatedFrom(""CRC32""  ) `a
+b`
+, string body,	} ")).
+Eval vm_compute in ("<<<M3431>>>" ++ check (runes_of_ascii "
 
   packet
-metadata  { 
-Logon
+FooBar
 {
 
-    A
-	`" ++ [28040; 24687; 31867; 22411]%N ++ runes_of_ascii "` 
-  // c
+    u8
+a ,
+	}  packet  foo_bar {  u16
+	b
+    ,} root packet
 
-  ,  tag
-o
+R { FooBar
+,foo_bar
+,  } ")).
+Eval vm_compute in ("<<<M3387>>>" ++ check (runes_of_ascii "options {
+
+FixedStringPadFromLeft =
+true;	}
+	root
+
+    packet
+
+    P { 
+char[
+
+    4
+
+    ]z
+,
+
+}
+")).
+Eval vm_compute in ("<<<M3923>>>" ++ check (runes_of_ascii "packet	A	{
+
+    repeat crc  uint8x // @lengthOf(
+	,@calculatedFrom(
+	""it's""	)
+uint64
+
+Logon`a\`
 
 ,
-}, zchar
-    len`// not a comment`  ,
-	} ")).
-Eval vm_compute in ("<<<M938>>>" ++ check (runes_of_ascii "packet A {
-    u16 len @lengthOf(body) `a
-
-b`,
-    u32 crc @calculatedFrom(""CRC32"") `a
-
-b`,
-    string body,
-}")).
-Eval vm_compute in ("<<<M53>>>" ++ check (runes_of_ascii "MetaData
-trueish {int
-falsey , char[
-10
-    ] u  , zchar[ 007 ] leftPad , string
-x `two words`
-    ,  }
+}
 ")).
-Eval vm_compute in ("<<<M1696>>>" ++ check (runes_of_ascii "
-packet
-    A
-	{  match k  as n{
-[ ""a"",
+Eval vm_compute in ("<<<M3061>>>" ++ check (runes_of_ascii "packet A {
+    B b `100% of %s %d %v`,
+    B `100% of %s %d %v`,
+    repeat B bs `100% of %s %d %v`,
+}")).
+Eval vm_compute in ("<<<M194>>>" ++ check (runes_of_ascii "options{
+lengthOf =
+// packet A { u8 x, }
+// c
+""a	b"";} root packet //	t
+body
+{ f32a Foo , //x
+}")).
+Eval vm_compute in ("<<<M3000>>>" ++ check (runes_of_ascii "packet A {
+  match k as n {
+    [1, 22, 007, 4, 5, 66, 7, 8, 9, 10, 11, 12] : B
+    2 : C
+  },
+}")).
+Eval vm_compute in ("<<<M2981>>>" ++ check (runes_of_ascii "packet A {
+  match k as n {
+    [1, 22, ""c c"", 4, 5, ""f"", 7, 8, ""i"", 10] : B,
+    2 : C
+  },
+}")).
+Eval vm_compute in ("<<<M1423>>>" ++ check (runes_of_ascii "packet
+T
+{ { match repeatCount as	calculatedFrom
+{ [65535 ]	: As	,
+} ,}
+// trailing space 
+")).
+Eval vm_compute in ("<<<M1508>>>" ++ check (runes_of_ascii "packet
+T
+{ match repeatCount as	cal" ++ [127]%N ++ runes_of_ascii "culatedFrom
+{ [65535 ]	: As	,
+} ,}
+// trailing space 
+")).
+Eval vm_compute in ("<<<M1474>>>" ++ check (runes_of_ascii "packet
+T
+{ match repeatCount as	calculatedFrom
+{ [65535 ]	: ,	As
+} ,}
+// trailing space 
+")).
+Eval vm_compute in ("<<<M1753>>>" ++ check (runes_of_ascii "options{  lengthOf =//x
+i16;
+    BodyLength = packet ; pack
+= false;
+    A = char[ 3 ] }")).
+Eval vm_compute in ("<<<M1816>>>" ++ check (runes_of_ascii "options{  lengthOf =//x
+i16;
+    BodyLength = 0 ; pack
+= false;
+    A = char[ 3'1' ] }")).
+Eval vm_compute in ("<<<M2924>>>" ++ check (runes_of_ascii "packet A {
+  match k as n {
+    [""a"", ""bb"", ""c c"", ""d"", ""e"", ""f""] : B
+    2 : C
+  },
+}")).
+Eval vm_compute in ("<<<M1413>>>" ++ check (runes_of_ascii "
+T
+{ match repeatCount as	calculatedFrom
+{ [65535 ]	: As	,
+} ,}
+// trailing space 
+")).
+Eval vm_compute in ("<<<M1715>>>" ++ check (runes_of_ascii "options  lengthOf =//x
+i16;
+    BodyLength = 0 ; pack
+= false;
+    A = char[ 3 ] }")).
+Eval vm_compute in ("<<<M2947>>>" ++ check (runes_of_ascii "packet A {
+  match k as n {
+    [1, 22, 007, 4, 5, 66, 7, 8] : B,
+    2 : C
+  },
+}")).
+Eval vm_compute in ("<<<M107>>>" ++ check (runes_of_ascii "root packet	repeatCount {
+    // @lengthOf(
+    @tag( 42 )
+int64 lengthOf , }
+")).
+Eval vm_compute in ("<<<M3258>>>" ++ check (runes_of_ascii "MetaData Foo { zchar[ 0 ] matchKey
+// c
+, } options { lengthOf = i32 u = 00 ; }")).
+Eval vm_compute in ("<<<M2935>>>" ++ check (runes_of_ascii "packet A {
+  match k as n {
+    [1, 22, 007, 4, 5, 66, 7] : B
+    2 : C
+  },
+}")).
+Eval vm_compute in ("<<<M2913>>>" ++ check (runes_of_ascii "packet A {
+  match k as n {
+    [1, ""bb"", 007, ""d"", 5] : B
+    2 : C
+  },
+}")).
+Eval vm_compute in ("<<<M1222>>>" ++ check (runes_of_ascii "packet Foo { match body as leftPad{ 4294967296  :/// triple
+tag , } , }
+")).
+Eval vm_compute in ("<<<M646>>>" ++ check (runes_of_ascii "packet
+    msg_type
+{ @rightPad (
+' ')u32 a1, u8x
+@lengthOf( crc ) , }")).
+Eval vm_compute in ("<<<M2896>>>" ++ check (runes_of_ascii "packet A {
+  match k as n {
+    [1, 22, 007, 4] : B
+    2 : C
+  },
+}")).
+Eval vm_compute in ("<<<M3019>>>" ++ check (runes_of_ascii "packet A {
+    B b `a
+b`,
+    B `a
+b`,
+    repeat B bs `a
+b`,
+}")).
+Eval vm_compute in ("<<<M4140>>>" ++ check (runes_of_ascii "MetaData trueish {
+    T Pad,
+    char[] _x,
+}// trailing space ")).
+Eval vm_compute in ("<<<M656>>>" ++ check (runes_of_ascii "MetaData i8i8
+    /// triple
+    {char[
+1 ] // 50% %s
+Foo ,}
+")).
+Eval vm_compute in ("<<<M3314>>>" ++ check (runes_of_ascii "packet u8x { } MetaData crc { char[ 4294967296 ] Foo ,
+// c
+}")).
+Eval vm_compute in ("<<<M3783>>>" ++ check (runes_of_ascii "
 
-""bb""
+  // c
+      root packet u128
+
+    {
+	chars `doc` 
 , 
-007 ,
-
-""d"",
-
-""e""  ,	66  , ""g""]
-	:
-
-B  2  : 
-C }	,
-	}
-")).
-Eval vm_compute in ("<<<M1972>>>" ++ check (runes_of_ascii "packet o {
-    repeat Logon uint8x,
-}
-
-options {
-    // c
-    asx = zchar[3]
-    stringy = '\x00'
 }")).
-Eval vm_compute in ("<<<M1720>>>" ++ check (runes_of_ascii "packet 
-A  {
+Eval vm_compute in ("<<<M3686>>>" ++ check (runes_of_ascii "
+MetaData
 
-B
-
-b	`a
-    b
-  c` ,B `a
-    b
-  c`	,
-
-    repeat B bs
-    `a
-    b
-  c` ,
-}
-
-")).
-Eval vm_compute in ("<<<M1866>>>" ++ check (runes_of_ascii "packet A {
-    match k as n {
-        [""a"", 22, ""c c"", 4, ""e""] : B,
-        2 : C,
-    },
-}")).
-Eval vm_compute in ("<<<M1190>>>" ++ check (runes_of_ascii "MetaData float { float64 charz `
-` // c
-, } root packet chars { @rightPad ( '0' ) Foo , }")).
-Eval vm_compute in ("<<<M1401>>>" ++ check (runes_of_ascii "packet chars {
-// c
-} packet MetaDataX { @tag( 42 ) i16 string_ , repeat x `say ""hi""` , }")).
-Eval vm_compute in ("<<<M2032>>>" ++ check (runes_of_ascii "
-
-  root packet
-P 
+    options1
 {
 
-    u16
-a ,u32
-
-    Sum @calculatedFrom(  ""CR\
-C32"" )
-    ,
-
-}")).
-Eval vm_compute in ("<<<M1131>>>" ++ check (runes_of_ascii "packet metadata { Logon
-// c
-{ A `" ++ [28040; 24687; 31867; 22411]%N ++ runes_of_ascii "` , tag o , } , zchar len `// not a comment` , }")).
-Eval vm_compute in ("<<<M855>>>" ++ check (runes_of_ascii "packet A {
-  match k as n {
-    [1, 22, ""c c"", 4, 5, ""f"", 7, 8] : B,
-    2 : C
-  },
-}")).
-Eval vm_compute in ("<<<M1368>>>" ++ check (runes_of_ascii "packet o { repeat Logon uint8x , } options { asx = zchar[ 3 ] // c
-stringy = '\x00' }")).
-Eval vm_compute in ("<<<M1334>>>" ++ check (runes_of_ascii "MetaData body { i64 pack `it's` , } packet stringy { int16 calculatedFrom , }
-// c
+    Packet 
+roots
+,
+}
 ")).
-Eval vm_compute in ("<<<M1329>>>" ++ check (runes_of_ascii "MetaData body { i64 pack `it's` , } packet stringy { int16 calculatedFrom // c
-, }")).
-Eval vm_compute in ("<<<M1593>>>" ++ check (runes_of_ascii "MetaData M {
-    u8 x `a
-        
-        b`,
-    T t `a
-        
-        b`,
-}")).
-Eval vm_compute in ("<<<M801>>>" ++ check (runes_of_ascii "packet A {
-  match k as n {
-    [""a"", 22, ""c c"", 4] : B,
-    2 : C
-  },
-}")).
-Eval vm_compute in ("<<<M793>>>" ++ check (runes_of_ascii "packet A {
-  match k as n {
-    [""a"", ""bb"", 007] : B
-    2 : C
-  },
-}")).
-Eval vm_compute in ("<<<M1705>>>" ++ check (runes_of_ascii "packet crc {
-    @lengthOf(falsey)
-    Packet `crlf
-    line`,
-}")).
-Eval vm_compute in ("<<<M2040>>>" ++ check (runes_of_ascii "MetaData u128 {
-    uint8x msg_type `line1
-        line2`,
-}")).
-Eval vm_compute in ("<<<M1289>>>" ++ check (runes_of_ascii "packet x { @rightPad ( ) repeat
-// c
-roots Logon `doc` , }")).
-Eval vm_compute in ("<<<M327>>>" ++ check (runes_of_ascii "options {
-_x = 0
-; As = zchar[ 4294967296 ] ; } //x")).
-Eval vm_compute in ("<<<M1958>>>" ++ check (runes_of_ascii "root
-
-packet
-
-    pack
-{
-    }  
-      // c
+Eval vm_compute in ("<<<M431>>>" ++ check (runes_of_ascii "root
+packet i8i8 {
+repeat int8 tag
+`two words`
+,}
 ")).
-Eval vm_compute in ("<<<M1986>>>" ++ check (runes_of_ascii "  options
+Eval vm_compute in ("<<<M2028>>>" ++ check (runes_of_ascii "
+packet leftPad {
+@leftPad( '0')
+u32
+i64_ `100% ")).
+Eval vm_compute in ("<<<M4222>>>" ++ check (runes_of_ascii "
+packet 
+u8x 
+
+    //	t
+      // 50% %s
 	{
-
-    falsey =
-false
-    }
+}
 ")).
-Eval vm_compute in ("<<<M2012>>>" ++ check (runes_of_ascii "root packet A {
-    u8 x `tab
-    	x`,
-}")).
-Eval vm_compute in ("<<<M56>>>" ++ check (runes_of_ascii "// `tick` ""quote"" 'q'
-
-/// triple
-")).
-Eval vm_compute in ("<<<M1803>>>" ++ check (runes_of_ascii "root packet P {
-    string s,
-}")).
-Eval vm_compute in ("<<<M912>>>" ++ check (runes_of_ascii "packet A {
+Eval vm_compute in ("<<<M1754>>>" ++ check (runes_of_ascii "options{  lengthOf =//x
+i16;
+    BodyLength =")).
+Eval vm_compute in ("<<<M2609>>>" ++ check (runes_of_ascii "packet A { B { match k as n { 1 : C }, }, }")).
+Eval vm_compute in ("<<<M3035>>>" ++ check (runes_of_ascii "root packet A {
     u8 x `a
-b`,
+    b
+  c`,
 }")).
-Eval vm_compute in ("<<<M1171>>>" ++ check (runes_of_ascii "root packet pack { // c
-}")).
-Eval vm_compute in ("<<<M1057>>>" ++ check (runes_of_ascii "// c x
-packet A {
-}")).
-Eval vm_compute in ("<<<M1017>>>" ++ check (runes_of_ascii "// c" ++ [8239]%N ++ runes_of_ascii "
-packet A {
-}")).
-Eval vm_compute in ("<<<M1024>>>" ++ check (runes_of_ascii "packet A {
-}// c" ++ [11]%N)).
-Eval vm_compute in ("<<<M1953>>>" ++ check (runes_of_ascii "  // c" ++ [8233]%N ++ runes_of_ascii "
+Eval vm_compute in ("<<<M4429>>>" ++ check (runes_of_ascii "root
+	packet P
+    {
+char
+	c
+	,u8	x
+	,}
 ")).
-Eval vm_compute in ("<<<M1030>>>" ++ check (runes_of_ascii "// c" ++ [12]%N)).
+Eval vm_compute in ("<<<M1191>>>" ++ check (runes_of_ascii "// a // b
+packet// " ++ [128512]%N ++ runes_of_ascii " emoji
+trueish{ }
+")).
+Eval vm_compute in ("<<<M2622>>>" ++ check (runes_of_ascii "packet A { match as as n { 1 : B }, }")).
+Eval vm_compute in ("<<<M3741>>>" ++ check (runes_of_ascii "packet A {
+    u8 x `a
+        b`,
+}")).
+Eval vm_compute in ("<<<M2360>>>" ++ check (runes_of_ascii "MetaData
+Foo Header //
+pack ,	} 	 ")).
+Eval vm_compute in ("<<<M313>>>" ++ check (runes_of_ascii "// a // b
+ // packet A { u8 x, }")).
+Eval vm_compute in ("<<<M880>>>" ++ check (runes_of_ascii "options { leftPad
+=
+    false }")).
+Eval vm_compute in ("<<<M3099>>>" ++ check (runes_of_ascii "packet A {
+ u8 x `d" ++ [12288]%N ++ runes_of_ascii "`, // c" ++ [12288]%N ++ runes_of_ascii "
+}")).
+Eval vm_compute in ("<<<M3704>>>" ++ check (runes_of_ascii "root packet tag {
+}// " ++ [128512]%N ++ runes_of_ascii " emoji")).
+Eval vm_compute in ("<<<M971>>>" ++ check (runes_of_ascii "root packet MetaDataX {  }
+")).
+Eval vm_compute in ("<<<M2601>>>" ++ check (runes_of_ascii "packet A { u8 x @tag(1), }")).
+Eval vm_compute in ("<<<M1142>>>" ++ check (runes_of_ascii "
+ // `tick` ""quote"" 'q'")).
+Eval vm_compute in ("<<<M2796>>>" ++ check (runes_of_ascii "k~" ++ [65533; 65533; 65533; 28; 65533]%N ++ runes_of_ascii "." ++ [65533; 65533; 65533; 1006; 14; 65533; 65533; 65533; 65533]%N ++ runes_of_ascii "
+F" ++ [65533; 65533; 65533; 16]%N)).
+Eval vm_compute in ("<<<M2655>>>" ++ check (runes_of_ascii "MetaData M { x y z, }")).
+Eval vm_compute in ("<<<M668>>>" ++ check (runes_of_ascii "  packet u8x { } 	 ")).
+Eval vm_compute in ("<<<M1945>>>" ++ check (runes_of_ascii "
+packet leftPad {")).
+Eval vm_compute in ("<<<M3152>>>" ++ check (runes_of_ascii "packet A {
+}
+// c" ++ [12]%N)).
+Eval vm_compute in ("<<<M3090>>>" ++ check (runes_of_ascii "packet A {
+}// c ")).
+Eval vm_compute in ("<<<M2668>>>" ++ check (runes_of_ascii "options { a 1; }")).
+Eval vm_compute in ("<<<M2641>>>" ++ check (runes_of_ascii "packet A { } 1")).
+Eval vm_compute in ("<<<M4367>>>" ++ check (runes_of_ascii "packet A {
+}")).
+Eval vm_compute in ("<<<M2736>>>" ++ check (runes_of_ascii "match u32")).
+Eval vm_compute in ("<<<M2475>>>" ++ check (runes_of_ascii "matches")).
+Eval vm_compute in ("<<<M3724>>>" ++ check (runes_of_ascii "// c" ++ [8232]%N ++ runes_of_ascii "
+")).
+Eval vm_compute in ("<<<M3106>>>" ++ check (runes_of_ascii "// c" ++ [133]%N)).
+Eval vm_compute in ("<<<M2549>>>" ++ check (runes_of_ascii "{}{}")).
+Eval vm_compute in ("<<<M2541>>>" ++ check (runes_of_ascii "a_b")).
+Eval vm_compute in ("<<<M2563>>>" ++ check ([233]%N ++ runes_of_ascii "a")).
